@@ -6,7 +6,7 @@ import ast
 from sa import pat, source
 from sa.cfg import cfg_of, guards
 from sa.classes import is_logging_stmt
-from sa.minieval import CannotEval, ev
+from sa.minieval import CannotEval, Record, ev
 from sa.source import AnchorMissing, dotted, is_self_attr, last_attr, local_defs, params_of, short, u, walk_body
 
 _C = "esrally/client/context.py"
@@ -15,10 +15,44 @@ _D = "esrally/driver/driver.py"
 
 
 _ABSENT = object()
+_RAISED = object()  # the code under analysis raises for this input
+_MISSING = object()  # stands for contextvars.Token.MISSING
+_KEYS = ("request_start", "request_end")  # keys of the context dict == public properties of the context manager (read by the executor and by the composite's wrapper)
+_MARK = {"request_start": 11.0, "request_end": 22.0}  # a distinct marker value per key: "which key does this expression read" is decided by evaluating it
 
 
 class _Stuck(Exception):
-    """the abstract run of a holder method left the interpreted fragment (or the code under analysis would raise)"""
+    """the abstract run of a holder method left the interpreted fragment: the shape is not recognised (never a verdict)"""
+
+
+class _Raises(Exception):
+    """the code under analysis itself raises for this input (e.g. min(5.0, None), a missing key)"""
+
+
+class _Return(Exception):
+    def __init__(self, value):
+        super().__init__()
+        self.value = value
+
+
+class _OtherClock:
+    """a reading of a clock other than the monotonic perf_counter: never equal to a perf_counter reading"""
+
+    def __init__(self, name):
+        self.name = name
+
+    def __repr__(self):
+        return f"<{self.name}()>"
+
+
+def _ev(e, env):
+    """sa.minieval.ev; any Python-level failure on a value the evaluator does not expect is 'cannot be evaluated' as well (never an exception of the checker)"""
+    try:
+        return ev(e, env)
+    except CannotEval:
+        raise
+    except (TypeError, ValueError, KeyError, IndexError, AttributeError, RecursionError) as x:
+        raise CannotEval(f"{short(e, 50)}: {type(x).__name__}")
 
 
 def _context_var(cls) -> str | None:
@@ -35,133 +69,608 @@ def _is_ctx_get(e, cv) -> bool:
         and (cv is None or e.func.value.attr == cv)
 
 
-def _evaluable(e, cv):
-    """copy of e in which the current-context read is the name __ctx__ and two-argument min()/max() are conditional expressions, so that minieval can evaluate it
-    (a None operand then fails the comparison exactly as min()/max() would raise)."""
-
-    class T(ast.NodeTransformer):
-        def visit_Call(self, n):
-            if _is_ctx_get(n, cv):
-                return ast.Name(id="__ctx__", ctx=ast.Load())
-            self.generic_visit(n)
-            if dotted(n.func) in ("min", "max") and len(n.args) == 2 and not n.keywords and not any(isinstance(a, ast.Starred) for a in n.args):
-                a, b = n.args
-                return ast.IfExp(test=ast.Compare(left=a, ops=[ast.LtE() if dotted(n.func) == "min" else ast.GtE()], comparators=[b]), body=a, orelse=b)
-            return n
-
-    return ast.fix_missing_locations(T().visit(source.clone(e)))
+def _cv_calls(f, cv, attr) -> list:
+    """calls `<...>.<cv>.<attr>(...)` in the body of f (attr: set / reset / get)"""
+    return [n for n in walk_body(f) if isinstance(n, ast.Call) and isinstance(n.func, ast.Attribute) and n.func.attr == attr and isinstance(n.func.value, ast.Attribute)
+            and n.func.value.attr == cv]
 
 
-def apply_update(func, new_name: str, new_val, state: dict, cv) -> dict:
-    """Abstract run of the holder method `func` with its value parameter bound to new_val on a copy of the context dict `state`; returns the dict afterwards.
-    Interprets assignments to locals / to keys of the context dict, if, pass, return and logging statements; anything else (or an evaluation failure) raises _Stuck."""
-    ctxd = dict(state)
-    env = {new_name: new_val, "__ctx__": ctxd}
+_BUILTIN_FUNCS = {"min": min, "max": max}
+_DICT_MUTATORS = ("setdefault", "update", "pop")
 
-    def val(e):
+
+class _Interp:
+    """Abstract run of methods of the request context holder on ONE context dict (no repository code is executed: the statements are interpreted here, expressions by sa.minieval).
+    Interpreted: assignments to locals / to keys of a dict, if, return, pass, assert, logging statements, calls of other methods of the same class (arguments bound to parameters,
+    also function-valued ones: the builtins min / max handed on as a value, through a parameter or a table), dict.setdefault / update / pop, conditional expressions and and / or
+    (lazily), the current-context read `<cv>.get()` (-> the context dict) and clock reads (time.perf_counter() -> the virtual reading `clock`, any other clock -> a value that
+    equals nothing else). Anything else raises _Stuck; an input for which the analysed code would raise gives _Raises."""
+
+    def __init__(self, cls, state: dict, clock=None):
+        self.cls = cls
+        self.methods = {n.name: n for n in cls.body if isinstance(n, source.FUNC_TYPES)}
+        self.cv = _context_var(cls)
+        self.mod = getattr(cls, "_module", None)
+        self.modfuncs = {n.name: n for n in (self.mod.tree.body if self.mod is not None else []) if isinstance(n, ast.FunctionDef)}
+        self.ctxd = dict(state)
+        self.clock = clock
+        self.stores: list = []  # (assignment node, key) of every executed store into the context dict
+        self.depth = 0
+        self.k = 0
+        self.stmt = None  # the statement of the analysed source that is being interpreted (expressions are evaluated on re-parsed copies)
+
+    # -- roles of sub-expressions ------------------------------------------------------------------------------------------
+    def _clock_name(self, n) -> str | None:
+        d = dotted(n.func) if isinstance(n, ast.Call) else None
+        if d is None:
+            return None
+        head, _, rest = d.partition(".")
+        full = self.mod.imports.get(head) if self.mod is not None else None
+        if full:
+            d = full + ("." + rest if rest else "")
+        return d if d.startswith("time.") else None
+
+    def _helper(self, n, env):
+        f = n.func
+        if isinstance(f, ast.Attribute) and isinstance(f.value, ast.Name) and f.value.id in ("cls", "self", self.cls.name) and f.value.id not in env and f.attr in self.methods:
+            return self.methods[f.attr]
+        if isinstance(f, ast.Name) and f.id not in env and f.id in self.modfuncs:  # a module-level function of the holder's module
+            return self.modfuncs[f.id]
+        return None
+
+    def _callee_value(self, n, env):
+        """the builtin the call n invokes when its callee is a function VALUE (a name bound to min / max, a parameter, a table lookup, a conditional expression), else None"""
+        f = n.func
+        if isinstance(f, ast.Name):
+            v = env.get(f.id, _BUILTIN_FUNCS.get(f.id)) if f.id in env or f.id in _BUILTIN_FUNCS else None
+            return v if any(v is b for b in _BUILTIN_FUNCS.values()) else None
+        if isinstance(f, (ast.Subscript, ast.IfExp)) or (isinstance(f, ast.Call) and isinstance(f.func, ast.Attribute) and f.func.attr == "get"):
+            return "evaluate"
+        return None
+
+    def _special(self, n, env) -> bool:
+        if isinstance(n, (ast.IfExp, ast.BoolOp)):
+            return True
+        if isinstance(n, ast.Name):
+            return n.id in _BUILTIN_FUNCS and n.id not in env and isinstance(n.ctx, ast.Load)
+        if isinstance(n, ast.Call):
+            return _is_ctx_get(n, self.cv) or self._clock_name(n) is not None or self._helper(n, env) is not None or self._callee_value(n, env) is not None \
+                or (isinstance(n.func, ast.Attribute) and n.func.attr in _DICT_MUTATORS)
+        return False
+
+    # -- expressions -------------------------------------------------------------------------------------------------------------
+    def val(self, e, env):
+        return self._val(source.clone(e), env)
+
+    def _args(self, n, env):
+        if any(isinstance(a, ast.Starred) for a in n.args) or any(k.arg is None for k in n.keywords):
+            raise _Stuck(f"star-arguments in {short(n, 50)}")
+        return [self._val(a, env) for a in n.args], {k.arg: self._val(k.value, env) for k in n.keywords}
+
+    def _val(self, n, env):
+        if isinstance(n, ast.IfExp):
+            return self._val(n.body if self._val(n.test, env) else n.orelse, env)
+        if isinstance(n, ast.BoolOp):
+            r = isinstance(n.op, ast.And)
+            for v in n.values:
+                r = self._val(v, env)
+                if bool(r) != isinstance(n.op, ast.And):
+                    return r
+            return r
+        if isinstance(n, ast.Name) and self._special(n, env):
+            return _BUILTIN_FUNCS[n.id]
+        if isinstance(n, ast.Call) and self._special(n, env):
+            return self._call(n, env)
+        # generic: every maximal special sub-expression is evaluated here (eagerly, as Python does for operands / arguments) and handed to minieval as a bound name
+        interp, env2 = self, dict(env)
+
+        class T(ast.NodeTransformer):
+            def visit(self, x):
+                if interp._special(x, env):
+                    interp.k += 1
+                    nm = f"__v{interp.k}__"
+                    env2[nm] = interp._val(x, env)
+                    return ast.copy_location(ast.Name(id=nm, ctx=ast.Load()), x)
+                return self.generic_visit(x)
+
+        m = T().generic_visit(n)
         try:
-            return ev(_evaluable(e, cv), env)
+            return ev(ast.fix_missing_locations(m), env2)
         except CannotEval as x:
-            raise _Stuck(str(x))
+            msg = str(x)
+            if "not supported between" in msg or msg.endswith(": KeyError") or msg.endswith(": TypeError"):
+                raise _Raises(msg)
+            raise _Stuck(msg)
+        except (TypeError, ValueError, AttributeError) as x:  # a value minieval does not expect (a function value, a foreign clock reading) in an operator position
+            raise _Stuck(f"{short(n, 50)}: {type(x).__name__}")
 
-    class _Return(Exception):
-        pass
+    def _call(self, n, env):
+        if _is_ctx_get(n, self.cv):
+            return self.ctxd
+        ck = self._clock_name(n)
+        if ck is not None:
+            if n.args or n.keywords:
+                raise _Stuck(f"clock read with arguments {short(n, 40)}")
+            if ck != "time.perf_counter":
+                return _OtherClock(ck)
+            if self.clock is None:
+                raise _Stuck("clock read in a run without a virtual clock")
+            return self.clock
+        h = self._helper(n, env)
+        if h is not None:
+            a, kw = self._args(n, env)
+            return self.invoke(h, a, kw)
+        if isinstance(n.func, ast.Attribute) and n.func.attr in _DICT_MUTATORS:
+            recv = self._val(n.func.value, env)
+            a, kw = self._args(n, env)
+            if not isinstance(recv, dict):
+                raise _Stuck(f"{short(n, 50)}: receiver is not a dict")
+            before = dict(recv)
+            try:
+                r = getattr(recv, n.func.attr)(*a, **kw)
+            except KeyError as x:
+                raise _Raises(f"{short(n, 50)}: KeyError {x}")
+            except (TypeError, ValueError) as x:
+                raise _Stuck(f"{short(n, 50)}: {type(x).__name__}")
+            if recv is self.ctxd:
+                self.stores += [(self.stmt if self.stmt is not None else n, k) for k in recv if k not in before or before[k] is not recv[k]]
+            return r
+        cv = self._callee_value(n, env)
+        if cv == "evaluate":
+            cv = self._val(n.func, env)
+            if not any(cv is b for b in _BUILTIN_FUNCS.values()):
+                raise _Stuck(f"call of a computed callee {short(n, 50)}")
+        a, kw = self._args(n, env)
+        if kw:
+            raise _Stuck(f"keyword arguments in {short(n, 50)}")
+        try:
+            return cv(*a)
+        except (TypeError, ValueError) as x:
+            raise _Raises(f"{short(n, 50)}: {type(x).__name__}")
 
-    def block(stmts):
+    # -- statements -----------------------------------------------------------------------------------------------------------------
+    def invoke(self, f, argvals, kwvals=None):
+        names = params_of(f)
+        deco = {last_attr(d.func if isinstance(d, ast.Call) else d) for d in f.decorator_list}
+        if "staticmethod" not in deco and names and isinstance(source.parent(f), ast.ClassDef):
+            names = names[1:]
+        kwonly = [a.arg for a in f.args.kwonlyargs]
+        if len(argvals) > len(names) or f.args.vararg is not None or f.args.kwarg is not None:
+            raise _Stuck(f"arguments of {f.name} cannot be bound")
+        env = dict(zip(names, argvals))
+        for k, v in (kwvals or {}).items():
+            if k in env or k not in names + kwonly:
+                raise _Stuck(f"argument {k} of {f.name} cannot be bound")
+            env[k] = v
+        allpos = params_of(f)
+        for nm, d in zip(allpos[len(allpos) - len(f.args.defaults):], f.args.defaults):
+            if nm in names and nm not in env:
+                env[nm] = self.val(d, {})
+        for a, d in zip(f.args.kwonlyargs, f.args.kw_defaults):
+            if a.arg not in env and d is not None:
+                env[a.arg] = self.val(d, {})
+        missing = [nm for nm in names + kwonly if nm not in env]
+        if missing:
+            raise _Stuck(f"{f.name}: no value for parameter(s) {missing}")
+        self.depth += 1
+        if self.depth > 6:
+            raise _Stuck("helper calls nested deeper than 6")
+        try:
+            self.block(f.body, env)
+            return None
+        except _Return as r:
+            return r.value
+        finally:
+            self.depth -= 1
+
+    def block(self, stmts, env):
         for s in stmts:
             if is_logging_stmt(s) or isinstance(s, ast.Pass) or (isinstance(s, ast.Expr) and isinstance(s.value, ast.Constant)):
                 continue
+            self.stmt = s
             if isinstance(s, ast.If):
-                block(s.body if val(s.test) else s.orelse)
+                self.block(s.body if self.val(s.test, env) else s.orelse, env)
             elif isinstance(s, ast.Return):
-                raise _Return()
+                raise _Return(self.val(s.value, env) if s.value is not None else None)
+            elif isinstance(s, ast.Raise):
+                raise _Raises(short(s, 60))
+            elif isinstance(s, ast.Assert):
+                if not self.val(s.test, env):
+                    raise _Raises(short(s, 60))
+            elif isinstance(s, ast.Expr) and isinstance(s.value, ast.Call) and self._special(s.value, env):
+                self.val(s.value, env)
             elif isinstance(s, ast.Assign) and len(s.targets) == 1 and isinstance(s.targets[0], ast.Name):
-                env[s.targets[0].id] = val(s.value)
+                env[s.targets[0].id] = self.val(s.value, env)
+            elif isinstance(s, ast.Assign) and len(s.targets) == 1 and isinstance(s.targets[0], ast.Tuple) and all(isinstance(t, ast.Name) for t in s.targets[0].elts):
+                v = self.val(s.value, env)
+                if not isinstance(v, (tuple, list)) or len(v) != len(s.targets[0].elts):
+                    raise _Stuck(f"unpacking {short(s, 60)}")
+                for t, x in zip(s.targets[0].elts, v):
+                    env[t.id] = x
             elif isinstance(s, ast.Assign) and len(s.targets) == 1 and isinstance(s.targets[0], ast.Subscript):
-                d, k, v = val(s.targets[0].value), val(s.targets[0].slice), val(s.value)
-                if d is not ctxd:
+                d, k, v = self.val(s.targets[0].value, env), self.val(s.targets[0].slice, env), self.val(s.value, env)
+                if not isinstance(d, dict):
                     raise _Stuck(f"store into {u(s.targets[0].value)}")
-                d[k] = v
+                try:
+                    d[k] = v
+                except TypeError:
+                    raise _Stuck(f"store under an unhashable key in {short(s, 60)}")
+                if d is self.ctxd:
+                    self.stores.append((s, k))
             else:
                 raise _Stuck(f"statement {short(s, 60)}")
 
-    try:
-        block(func.body)
-    except _Return:
-        pass
-    return ctxd
+
+def run_holder(func, args, state: dict, clock=None) -> _Interp:
+    """Abstract run of the holder method `func` with positional argument VALUES `args` on a copy of the context dict `state` (virtual perf_counter reading `clock`); returns the
+    interpreter (its .ctxd is the dict afterwards, .stores the executed stores). Raises _Stuck (shape not recognised) / _Raises (the analysed code raises for this input)."""
+    it = _Interp(source.enclosing_class(func), state, clock)
+    it.invoke(func, list(args))
+    return it
+
+
+def _value_params(func) -> list | None:
+    """parameters of a holder method that a caller must supply (self / cls and parameters with a default aside)"""
+    ps = params_of(func)
+    deco = {last_attr(d.func if isinstance(d, ast.Call) else d) for d in func.decorator_list}
+    if "staticmethod" not in deco and ps and isinstance(source.parent(func), ast.ClassDef):
+        ps = ps[1:]
+    nd = len(func.args.defaults)
+    return ps[: len(ps) - nd] if nd else ps
 
 
 _REF = {"min": lambda c, n: n if c is _ABSENT else min(c, n), "max": lambda c, n: n if c is _ABSENT else max(c, n), "first": lambda c, n: n if c is _ABSENT else c, "last": lambda c, n: n}
 _CUR = (_ABSENT, 0.0, 5.0)  # reachable values of the recorded time (0.0: a recorded time is not 'missing' because it is falsy)
 _NEW = (0.0, 3.0, 5.0, 7.0)
+_SIBLING = {"request_start": ("request_end", 6.0), "request_end": ("request_start", 4.0)}
+
+
+def _states(key):
+    other = _SIBLING.get(key)
+    for x in [{}] + ([{other[0]: other[1]}] if other else []):
+        for c in _CUR:
+            yield c, dict(x, **({} if c is _ABSENT else {key: c}))
 
 
 def merge_kind(func, key: str):
-    """Classify how `func(new)` merges `new` into meta[key]: 'min' | 'max' | 'first' | 'last' | 'unknown'. Also whether None is ignored.
-    Decided by value: the method body is evaluated on every (recorded value, new value) pair of a small domain, with and without the sibling timing key present, and the
-    resulting table is compared with the tables of the four operators; a missing (None) new value must leave the context observationally unchanged."""
-    ps = [p for i, p in enumerate(params_of(func)) if not (i == 0 and p in ("self", "cls"))]
-    stores = [n for n in walk_body(func) if isinstance(n, ast.Assign) and isinstance(n.targets[0], ast.Subscript) and source.is_const(n.targets[0].slice, key)]
-    if not stores:
-        return "unknown", False, None
-    if len(ps) != 1:
-        return "unknown", False, stores[0]
-    new = ps[0]
-    cv = _context_var(source.enclosing_class(func))
-    other = {"request_start": ("request_end", 6.0), "request_end": ("request_start", 4.0)}.get(key)
-    extras = [{}] + ([{other[0]: other[1]}] if other else [])
-
-    def states():
-        for x in extras:
-            for c in _CUR:
-                yield c, dict(x, **({} if c is _ABSENT else {key: c}))
-
-    kinds = set(_REF)
-    for c, st in states():
+    """Classify how `func(new)` merges `new` into the current context's dict under `key`: 'min' | 'max' | 'first' | 'last' (the operator whose table the method reproduces),
+    'other' (evaluated, but the table is none of the four), 'no-store' (evaluated, the key is never written), 'unknown' (the method could not be evaluated: shape not recognised).
+    Returns (kind, none_safe, store site); none_safe is None when it could not be evaluated.
+    Decided by value: the method - TOGETHER WITH the methods of its class it calls (an extracted helper gets its parameters bound to the argument values, function-valued ones
+    included) - is run abstractly on every (recorded value, new value) pair of a small domain, with and without the sibling timing key present, and the resulting table is
+    compared with the tables of the four operators; a missing (None) new value must leave the context observationally unchanged. The store site is the statement that was SEEN
+    writing the key during these runs (wherever it lives), not a statement found by the spelling of its subscript."""
+    if _value_params(func) is None or len(_value_params(func)) != 1:
+        return "unknown", None, None
+    kinds, stuck, store = set(_REF), None, None
+    for c, st in _states(key):
         for n in _NEW:
             try:
-                got = apply_update(func, new, n, st, cv).get(key, _ABSENT)
-            except _Stuck:
-                kinds = set()
+                it = run_holder(func, [n], st)
+                got = it.ctxd.get(key, _ABSENT)
+                store = store or next((s for s, k in it.stores if k == key), None)
+            except _Stuck as x:
+                stuck = str(x)
                 break
-            kinds = {k for k in kinds if _REF[k](c, n) == got and got is not _ABSENT}
+            except _Raises:
+                got = _RAISED
+            kinds = {k for k in kinds if got is not _ABSENT and got is not _RAISED and _REF[k](c, n) == got}
+        if stuck:
+            break
     none_safe = True
-    for c, st in states():
+    for c, st in _states(key):
         try:
-            after = apply_update(func, new, None, st, cv)
-            same = after.get(key) == st.get(key) and all(apply_update(func, new, n, after, cv).get(key) == apply_update(func, new, n, st, cv).get(key) for n in (3.0, 7.0))
+            after = run_holder(func, [None], st).ctxd
+            same = after.get(key) == st.get(key) and all(run_holder(func, [n], after).ctxd.get(key) == run_holder(func, [n], st).ctxd.get(key) for n in (3.0, 7.0))
         except _Stuck:
+            none_safe = None
+            break
+        except _Raises:
             same = False
         none_safe = none_safe and same
-    return (kinds.pop() if len(kinds) == 1 else "unknown"), none_safe, stores[0]
+    if stuck is not None:
+        return "unknown", none_safe, store
+    if store is None:
+        return "no-store", none_safe, None
+    return (kinds.pop() if len(kinds) == 1 else "other"), none_safe, store
 
 
-def _bound_context(w) -> str:
+def apply_update(func, new_name: str, new_val, state: dict, cv=None) -> dict:
+    """the context dict after the abstract run of the one-value holder method `func` on a copy of `state` (kept for callers of the former interface)"""
+    return run_holder(func, [new_val], state).ctxd
+
+
+def _ldefs(func) -> dict:
+    """source.local_defs plus the names bound by a parallel assignment `a, b = x, y` (each bound exactly once in the function)"""
+    defs = dict(local_defs(func))
+    counts: dict = {}
+    for n in walk_body(func):
+        if isinstance(n, ast.Name) and isinstance(n.ctx, (ast.Store, ast.Del)):
+            counts[n.id] = counts.get(n.id, 0) + 1
+    for n in walk_body(func):
+        if isinstance(n, ast.Assign) and len(n.targets) == 1 and isinstance(n.targets[0], ast.Tuple) and isinstance(n.value, ast.Tuple) and len(n.targets[0].elts) == len(n.value.elts):
+            for t, v in zip(n.targets[0].elts, n.value.elts):
+                if isinstance(t, ast.Name) and counts.get(t.id) == 1 and not isinstance(v, ast.Starred):
+                    defs[t.id] = v
+    return defs
+
+
+# ---- roles of esrally/client/context.py, derived by data flow --------------------------------------------------------------------------------------------------------------
+
+class _Roles:
+    """RCM / RCH: the two classes; mm / hm: their methods; cv: the ContextVar; init / restore: the holder methods that set / reset it; factories: names of the holder methods
+    that return a new context manager; holder_attrs: manager attributes the holder is addressed through; ctx_attr / token_attr: manager attributes that __enter__ unpacks the
+    installed dict / the reset token into (by position in the tuple the init method returns); unpack: that assignment."""
+
+
+def _init_shape(f, cv):
+    """(position of the installed dict, position of the reset token) in the tuple the init method returns, the set call, the installed value - None positions if the returned
+    element is not the very local that was installed / not the result of the set call"""
+    sets = _cv_calls(f, cv, "set")
+    rets = [n for n in walk_body(f) if isinstance(n, ast.Return)]
+    if len(sets) != 1 or len(rets) != 1 or not isinstance(rets[0].value, ast.Tuple):
+        return None, None, (sets[0] if len(sets) == 1 else None)
+    defs = local_defs(f)
+    setc = sets[0]
+    arg = setc.args[0] if len(setc.args) == 1 else None
+    pos_d = pos_t = None
+    for i, e in enumerate(rets[0].value.elts):
+        root, hops = e, 0
+        while isinstance(root, ast.Name) and root.id in defs and hops < 10:
+            root, hops = defs[root.id], hops + 1
+        if root is setc:
+            pos_t = i
+        elif isinstance(arg, ast.Name) and arg.id in defs and isinstance(e, ast.Name) and (e.id == arg.id or (isinstance(defs.get(e.id), ast.Name) and defs[e.id].id == arg.id)):
+            pos_d = i
+    return pos_d, pos_t, setc
+
+
+def context_roles(ctx) -> _Roles:
+    R = getattr(ctx, "_c18_roles", None)
+    if R is not None:
+        return R
+    R = _Roles()
+    R.mod = ctx
+    R.RCM, R.RCH = ctx.cls("RequestContextManager"), ctx.cls("RequestContextHolder")
+    R.mm, R.hm = ctx.methods(R.RCM), ctx.methods(R.RCH)
+    R.cv = _context_var(R.RCH)
+    if R.cv is None:
+        raise AnchorMissing("RequestContextHolder: no class-level ContextVar")
+    R.init = [f for f in R.hm.values() if _cv_calls(f, R.cv, "set")]
+    R.restore = [f for f in R.hm.values() if _cv_calls(f, R.cv, "reset")]
+    R.factories = {nm for nm, f in R.hm.items() for n in walk_body(f) if isinstance(n, ast.Return) and n.value is not None
+                   and isinstance(source.inline_node(n.value, local_defs(f)), ast.Call) and last_attr(source.inline_node(n.value, local_defs(f)).func) == R.RCM.name}
+    R.holder_attrs = {c.func.value.attr for f in R.mm.values() for c in source.calls_in(f) if isinstance(c.func, ast.Attribute) and is_self_attr(c.func.value) and c.func.attr in R.hm}
+    R.unpack = R.ctx_attr = R.token_attr = None
+    R.init_pos = (None, None)
+    ent = R.mm.get("__enter__")
+    if ent is not None and len(R.init) == 1:
+        for n in walk_body(ent):
+            if isinstance(n, ast.Assign) and len(n.targets) == 1:
+                v = source.inline_node(n.value, local_defs(ent))
+                if isinstance(v, ast.Call) and isinstance(v.func, ast.Attribute) and v.func.attr == R.init[0].name and is_self_attr(v.func.value) and v.func.value.attr in R.holder_attrs:
+                    R.unpack = n
+        pos_d, pos_t, _ = _init_shape(R.init[0], R.cv)
+        R.init_pos = (pos_d, pos_t)
+        if pos_d is None and pos_t in (0, 1):
+            pos_d = 1 - pos_t  # for the ROLE of the manager's attributes the other element stands for the dict (that it is not the installed one is O18.2's finding)
+        t = R.unpack.targets[0] if R.unpack is not None else None
+        if isinstance(t, ast.Tuple) and pos_d is not None and pos_t is not None and len(t.elts) == 2:
+            if is_self_attr(t.elts[pos_d]):
+                R.ctx_attr = t.elts[pos_d].attr
+            if is_self_attr(t.elts[pos_t]):
+                R.token_attr = t.elts[pos_t].attr
+    ctx._c18_roles = R
+    return R
+
+
+def _need(R, *names):
+    for nm in names:
+        if getattr(R, nm, None) in (None, [], set()):
+            raise AnchorMissing(f"{_C}: role '{nm}' of the request context classes could not be derived (init method that sets the ContextVar / __enter__ unpacking its result / "
+                                "holder calls of the manager)")
+
+
+def _reached_calls(fn, R, depth=0) -> list:
+    """[(call, chain)]: every call made by the manager method fn, directly or inside methods of the manager it calls as self.m(...) (an extracted helper);
+    chain = the nodes leading to the call, one per function: [site in fn, ..., the call itself]"""
+    out = []
+    for c in source.calls_in(fn):
+        out.append((c, [c]))
+        if isinstance(c.func, ast.Attribute) and isinstance(c.func.value, ast.Name) and c.func.value.id == "self" and c.func.attr in R.mm and R.mm[c.func.attr] is not fn and depth < 3:
+            out += [(c2, [c] + ch) for c2, ch in _reached_calls(R.mm[c.func.attr], R, depth + 1)]
+    return out
+
+
+def _holder_calls(fn, R) -> list:
+    """[(call, chain)]: the calls `self.<holder attr>.<holder method>(...)` among the calls reached from fn"""
+    return [(c, ch) for c, ch in _reached_calls(fn, R) if isinstance(c.func, ast.Attribute) and is_self_attr(c.func.value) and c.func.value.attr in R.holder_attrs and c.func.attr in R.hm]
+
+
+def _restore_calls(fn, R) -> list:
+    """[(call, chain)]: calls reached from fn that restore the enclosing context: the holder's restore method (the one that resets the ContextVar), or that reset spelled out
+    on the holder's ContextVar (`<holder>.<cv>.reset(token)`, the restore method inlined)"""
+    rn = {f.name for f in R.restore}
+    return [(c, ch) for c, ch in _holder_calls(fn, R) if c.func.attr in rn] + \
+        [(c, ch) for c, ch in _reached_calls(fn, R) if isinstance(c.func, ast.Attribute) and c.func.attr == "reset" and isinstance(c.func.value, ast.Attribute) and c.func.value.attr == R.cv]
+
+
+def _chain_facts(chain) -> list:
+    """atomic guard facts under which the last node of the chain runs (those of every call site on the way included), each seen through the single-assignment locals of its function"""
+    out = []
+    for x in chain:
+        f = source.enclosing_func(x)
+        out += [source.inline_node(t, _ldefs(f)) for t in pat.fact_nodes(x)]
+    return out
+
+
+def _chain_dominated(a, b) -> bool:
+    """does chain b's call happen before chain a's call on every path (decided in the function where the two chains part)"""
+    for x, y in zip(a, b):
+        if x is y:
+            continue
+        g = cfg_of(source.enclosing_func(x))
+        return g.dominated_by_nodes(g.node_of(x), [g.node_of(y)])
+    return False
+
+
+def _chain_arg(chain, e):
+    """expression e of the chain's last function, seen from the chain's first function: single-assignment locals inlined, parameters of the helpers on the way bound to the
+    arguments of their call sites"""
+    for i in range(len(chain) - 1, -1, -1):
+        f = source.enclosing_func(chain[i])
+        e = source.inline_node(e, _ldefs(f))
+        if i == 0:
+            break
+        b = source.bind_args(chain[i - 1], f)
+        e = source.inline_node(e, {k: v for k, v in b.items()})
+    return e
+
+
+def _props_inlined(e, R, depth=0):
+    """copy of e in which reads of the manager's properties (`self.<property>`) are replaced by the expression the property returns"""
+
+    class T(ast.NodeTransformer):
+        def visit_Attribute(self, n):
+            self.generic_visit(n)
+            f = R.mm.get(n.attr) if is_self_attr(n) else None
+            if f is not None and depth < 4 and "property" in {last_attr(d) for d in f.decorator_list}:
+                rets = [x for x in walk_body(f) if isinstance(x, ast.Return) and x.value is not None]
+                if len(rets) == 1:
+                    return _props_inlined(source.inline_node(rets[0].value, _ldefs(f)), R, depth + 1)
+            return n
+
+    return T().visit(source.clone(e))
+
+
+def _own_key(e, R):
+    """which timing key of the manager's OWN context dict the expression e (already seen from a manager method) evaluates to - by value: the dict holds a distinct marker per
+    key. None: neither; raises CannotEval if it cannot be evaluated."""
+    v = _ev(_props_inlined(e, R), {"self": Record(**{R.ctx_attr: dict(_MARK)})})
+    for k, m in _MARK.items():
+        if isinstance(v, float) and v == m:
+            return k
+    return None
+
+
+def _exit_env(R, ex, parent, own, exc) -> dict:
+    """representative state in which __exit__ runs: `parent` is what the reset token remembers (Token.MISSING: top-level context), `own` the context's own dict, `exc` whether the
+    block ended with an exception"""
+    fields = {R.token_attr: Record(old_value=parent), R.ctx_attr: own}
+    fields.update({p: own.get(p) for p in _KEYS if p in R.mm})
+    env = {"self": Record(**fields)}
+    for i, p in enumerate(params_of(ex)[1:4]):
+        env[p] = (None if not exc else ("ExcType", "exc", "tb")[i])
+    for name, target in R.mod.imports.items():
+        if target == "contextvars":
+            env[name] = Record(Token=Record(MISSING=_MISSING))
+        elif target == "contextvars.Token":
+            env[name] = Record(MISSING=_MISSING)
+        elif target == "contextvars.Token.MISSING":
+            env[name] = _MISSING
+    return env
+
+
+def _propagations(R):
+    """(__exit__, [(call, chain)] of its propagation calls: holder calls other than the restore)"""
+    ex = R.mm.get("__exit__")
+    if ex is None:
+        raise AnchorMissing("RequestContextManager.__exit__")
+    _need(R, "holder_attrs")
+    rn = {f.name for f in R.restore}
+    props = [(c, ch) for c, ch in _holder_calls(ex, R) if c.func.attr not in rn]
+    if not props:
+        raise AnchorMissing("propagation calls in RequestContextManager.__exit__")
+    return ex, props
+
+
+def _context_withs(func, factories) -> list:
+    """[(with statement, item, how)]: the with statements of func that enter a request context - by data flow: the context expression, seen through single-assignment locals
+    (a hoisted bound method, a context object built one line earlier), is a call of the holder's context factory (how = 'call'), or it is an instance attribute the function
+    assigns such a call to (how = 'attr': the context object lives in state shared by all invocations)"""
+    defs = local_defs(func)
+
+    def factory_call(e):
+        return isinstance(e, ast.Call) and isinstance(e.func, ast.Attribute) and e.func.attr in factories
+
+    attr_ctx = {u(n.targets[0]) for n in walk_body(func) if isinstance(n, ast.Assign) and isinstance(n.targets[0], ast.Attribute) and factory_call(source.inline_node(n.value, defs))}
+    out = []
+    for n in walk_body(func):
+        if isinstance(n, (ast.With, ast.AsyncWith)):
+            for i in n.items:
+                e = source.inline_node(i.context_expr, defs)
+                if factory_call(e):
+                    out.append((n, i, "call"))
+                elif u(e) in attr_ctx:
+                    out.append((n, i, "attr"))
+    return out
+
+
+def _bound_context(w, item=None) -> str:
     """the local a `with <client>.new_request_context() as V` statement binds the context object to"""
-    for i in w.items:
-        if "new_request_context" in u(i.context_expr):
+    for i in ([item] if item is not None else w.items):
+        if item is not None or "new_request_context" in u(i.context_expr):
             if isinstance(i.optional_vars, ast.Name):
                 return i.optional_vars.id
             raise AnchorMissing(f"request context at line {w.lineno} is not bound to a local (with ... as <name>)")
     raise AnchorMissing(f"with statement at line {w.lineno} opens no request context")
 
 
+def _alias_root(e, defs):
+    """the expression a pure alias chain of single-assignment locals (`x = y`) leads to"""
+    hops = 0
+    while isinstance(e, ast.Name) and e.id in defs and isinstance(defs[e.id], (ast.Name, ast.Attribute)) and hops < 10:
+        e, hops = defs[e.id], hops + 1
+    return e
+
+
 def propagation_guard_rule(chk, rid, ctx):
     """RequestContextManager.__exit__ hands its start / end to the enclosing context whenever there is one — also when the block ends with an exception (a failed sub-request of a
-    composite still belongs to the logical request). The only guard fact allowed is "the token has an old value". Shared with C04 (service time under error outcomes)."""
-    from sa import pat
-    RCM = ctx.cls("RequestContextManager")
-    ex = ctx.methods(RCM).get("__exit__")
-    if ex is None:
-        raise AnchorMissing("RequestContextManager.__exit__")
-    props = [c for c in source.calls_in(ex) if isinstance(c.func, ast.Attribute) and is_self_attr(c.func.value, "ctx_holder") and c.func.attr not in ("restore_context",)]
-    if not props:
-        raise AnchorMissing("propagation calls in RequestContextManager.__exit__")
-    for p in props:
-        fs = pat.fact_nodes(p)
-        ok = len(fs) == 1 and pat.is_(fs[0], "self.token.old_value != contextvars.Token.MISSING", "self.token.old_value is not contextvars.Token.MISSING", "contextvars.Token.MISSING is not self.token.old_value")
-        chk.ob(rid, "propagation only when a parent context exists", ok, p, f"guards {[(u(t), pol) for t, pol in guards(p)]}")
+    composite still belongs to the logical request) — and never on the top-level context. Shared with C04 (service time under error outcomes).
+    Decided on VALUES: the guard facts of every propagation call (explicit branches, negated guard clauses, the call sites of an extracted helper), seen through single-assignment
+    locals, are evaluated for every combination of {top-level: the reset token remembers Token.MISSING, nested under an empty / a filled parent dict} x {block left normally, with
+    an exception} x {own context with / without timings}; the token attribute is the one __enter__ unpacks the token into. The call must be reached in every nested row in which
+    the context has timings, and in no top-level row - whatever the test is spelled like."""
+    R = context_roles(ctx)
+    ex, props = _propagations(R)
+    _need(R, "token_attr", "ctx_attr")
+    # the parent can only receive anything if it is the current context again: every normal way out of __exit__ leads through the restore (also the early ones that propagate nothing)
+    g = cfg_of(ex)
+    resets = _restore_calls(ex, R)
+    rkey = f"{_C}:RequestContextManager.__exit__:restore-on-every-exit"
+    if not resets:  # __exit__ and everything it calls on the holder were located: nothing restores the enclosing context
+        chk.ob(rid, "every normal exit of __exit__ has restored the enclosing context", False, ex, "nothing reached from __exit__ resets the ContextVar: later requests of the task are "
+               "booked on the stale nested context", key=rkey)
+    else:
+        if len(resets) == 1:
+            ok = all(cfg_of(f_).must_pass(cfg_of(f_).entry, [cfg_of(f_).node_of(x)]) for x in resets[0][1] for f_ in [source.enclosing_func(x)])
+        else:
+            ok = g.must_pass(g.entry, [g.node_of(ch[0]) for _, ch in resets])
+        pth = None
+        if not ok:
+            p_ = g.find_path(g.entry, g.exit, avoid=[g.node_of(ch[0]) for _, ch in resets])
+            pth = g.describe_path(p_) if p_ else None
+        chk.ob(rid, "every normal exit of __exit__ has restored the enclosing context", ok, resets[0][0],
+               "" if ok else "a path leaves the context manager without reset(token): later requests of the task are booked on the stale nested context", path=pth, key=rkey)
+    own_full = {"request_start": 3.0, "request_end": 5.0}
+    for p, chain in props:
+        facts = _chain_facts(chain)
+        lost = leaked = None
+        try:
+            for parent in (_MISSING, {}, {"request_start": 1.0, "request_end": 9.0}):
+                for exc in (False, True):
+                    for own in (own_full, {}):
+                        reached = all(bool(_ev(f, _exit_env(R, ex, parent, own, exc))) for f in facts)
+                        row = f"parent context {'absent' if parent is _MISSING else ('empty' if not parent else 'with timings')}, block left {'with an exception' if exc else 'normally'}"
+                        if parent is _MISSING and reached:
+                            leaked = leaked or row
+                        if parent is not _MISSING and own and not reached:
+                            lost = lost or row
+        except CannotEval as x:
+            chk.unknown(rid, f"guard of the propagation call `{short(p, 50)}` cannot be evaluated ({x})", p)
+            continue
+        chk.ob(rid, "propagation only when a parent context exists", lost is None and leaked is None, p, f"guards {[u(f) for f in facts]}"
+               + (f" — not propagated: {lost}" if lost else "") + (f" — propagated although: {leaked}" if leaked else ""))
 
 
 _A = "esrally/client/asynchronous.py"
@@ -208,13 +717,22 @@ def _holder_names(mod) -> set:
 
 
 def _end_recorders(repo):
-    """(zero-argument recorders, one-argument merges): holder methods that stamp the END of a wire request - by data flow: a merge stores the context's 'request_end' from its
-    parameter; a recorder hands a monotonic clock read to such a merge."""
+    """(zero-argument recorders, one-argument merges): holder methods that stamp the END of a wire request - by VALUE: a merge, run abstractly with the value 7.0 on an empty
+    context, leaves ctx['request_end'] == 7.0 (whichever helper does the store); a recorder, run with the virtual monotonic clock at 7.0, does the same (a reading of any other
+    clock is a different value)."""
     ctx = repo.module(_C)
     hm = ctx.methods(ctx.cls("RequestContextHolder"))
-    merges = {nm for nm, f in hm.items() if any(isinstance(n, ast.Assign) and isinstance(n.targets[0], ast.Subscript) and source.is_const(n.targets[0].slice, "request_end") for n in walk_body(f))}
-    recs = {nm for nm, f in hm.items() if any(isinstance(n, ast.Call) and last_attr(n.func) in merges and len(n.args) == 1
-                                               and pat.is_(source.inline_node(n.args[0], local_defs(f)), "time.perf_counter()") for n in walk_body(f))}
+    merges, recs = set(), set()
+    for nm, f in hm.items():
+        nparams = len(_value_params(f))
+        if nparams > 1:
+            continue
+        try:
+            after = run_holder(f, [7.0] if nparams else [], {}, clock=None if nparams else 7.0).ctxd
+        except (_Stuck, _Raises):
+            continue
+        if after.get("request_end") == 7.0 and "request_start" not in after:
+            (merges if nparams else recs).add(nm)
     if not merges or not recs:
         raise AnchorMissing("RequestContextHolder: no method records the end of a wire request (store of 'request_end' / clock read handed to it)")
     return recs, merges
@@ -273,8 +791,23 @@ def node_failure_end(repo) -> dict:
         raise AnchorMissing(f"{_A}: {ncls.name}.{_NODE_API} does not delegate exactly once to the library's {_NODE_API} ({len(dels)} delegating call(s))")
     recs, merges = _end_recorders(repo)
     holders = _holder_names(mod)
-    ends = [n for n in walk_body(pr) if isinstance(n, ast.Call) and isinstance(n.func, ast.Attribute) and last_attr(n.func.value) in holders
-            and ((n.func.attr in recs and not n.args) or (n.func.attr in merges and len(n.args) == 1 and pat.is_(source.inline_node(n.args[0], local_defs(pr)), "time.perf_counter()")))]
+
+    def recorder_calls(fn):
+        return [n for n in walk_body(fn) if isinstance(n, ast.Call) and isinstance(n.func, ast.Attribute) and last_attr(n.func.value) in holders
+                and ((n.func.attr in recs and not n.args) or (n.func.attr in merges and len(n.args) == 1 and pat.is_(source.inline_node(n.args[0], _ldefs(fn)), "time.perf_counter()")))]
+
+    def records_always(fn, depth=0) -> bool:
+        """an extracted helper of the node class that attempts an end-recorder call on every way through it (exceptional ways included)"""
+        gh = cfg_of(fn)
+        through = [x for c in recorder_calls(fn) + helper_calls(fn, depth + 1) for x in gh.nodes_of(c)]
+        return bool(through) and gh.must_pass(gh.entry, through, exits=[gh.exit, gh.raise_exit])
+
+    def helper_calls(fn, depth=0):
+        nm = mod.methods(ncls)
+        return [n for n in walk_body(fn) if depth < 3 and isinstance(n, ast.Call) and isinstance(n.func, ast.Attribute) and isinstance(n.func.value, ast.Name) and n.func.value.id == "self"
+                and n.func.attr in nm and nm[n.func.attr] is not fn and n.func.attr != _NODE_API and records_always(nm[n.func.attr], depth)]
+
+    ends = recorder_calls(pr) + helper_calls(pr)
     g = cfg_of(pr)
     end_nodes = [x for c in ends for x in g.nodes_of(c)]
     dn = g.node_of(dels[0])
@@ -324,21 +857,71 @@ def trace_hook_table(chk, rid, repo):
     if not tc:
         raise AnchorMissing("aiohttp.TraceConfig() in create_async")
     tv = tc[0].targets[0].id
-    role = {}
-    for d in walk_body(f):
-        if isinstance(d, (ast.AsyncFunctionDef, ast.FunctionDef)):
-            called = {last_attr(c.func) for c in ast.walk(d) if isinstance(c, ast.Call)}
-            # a callback has a role only if its body is the single unconditional call (docstring / logging aside)
-            body_ = [st_ for st_ in d.body if not (isinstance(st_, ast.Expr) and isinstance(st_.value, ast.Constant)) and not is_logging_stmt(st_)]
-            plain = len(body_) == 1 and isinstance(body_[0], ast.Expr) and isinstance(body_[0].value, (ast.Call, ast.Await))
-            if "on_request_start" in called and "on_request_end" not in called:
-                role[d.name] = "start" if plain else "conditional start"
-            elif "on_request_end" in called and "on_request_start" not in called:
-                role[d.name] = "stop" if plain else "conditional stop"
-    table = {}
-    for n in walk_body(f):
-        if isinstance(n, ast.Call) and last_attr(n.func) == "append" and isinstance(n.func.value, ast.Attribute) and isinstance(n.func.value.value, ast.Name) and n.func.value.value.id == tv and n.args:
-            table.setdefault(n.func.value.attr, []).append(role.get(u(n.args[0]), u(n.args[0])))
+    # roles of the callbacks by data flow: a callback STARTS / STOPS the clock if it calls a zero-argument holder method that - run abstractly on an empty context with the
+    # virtual monotonic clock - records the request's start / end. The callback may be a nested function, a module-level function or a method of the factory, and may reach the
+    # registration through a local alias.
+    hm = repo.module(_C).methods(repo.module(_C).cls("RequestContextHolder"))
+    starters, stoppers = set(), set()
+    for nm, hf in hm.items():
+        if not _value_params(hf):
+            try:
+                after = run_holder(hf, [], {}, clock=7.0).ctxd
+            except (_Stuck, _Raises):
+                continue
+            if set(after) == {"request_start"}:  # (WHICH clock it reads is the obligation on the wire callbacks in O18.1 / O4.2, not part of the role)
+                starters.add(nm)
+            elif set(after) == {"request_end"}:
+                stoppers.add(nm)
+    if not starters or not stoppers:
+        raise AnchorMissing("RequestContextHolder: the zero-argument methods that record the start / the end of a wire request from the monotonic clock were not located")
+    fcls = fac.cls("EsClientFactory")
+    nested = {d.name: d for d in walk_body(f) if isinstance(d, source.FUNC_TYPES)}
+    modfuncs = {d.name: d for d in fac.tree.body if isinstance(d, source.FUNC_TYPES)}
+
+    def classify(d):
+        called = {last_attr(c.func) for c in ast.walk(d) if isinstance(c, ast.Call)}
+        # a callback has a plain role only if its body is the single unconditional call (docstring / logging aside)
+        body_ = [st_ for st_ in d.body if not (isinstance(st_, ast.Expr) and isinstance(st_.value, ast.Constant)) and not is_logging_stmt(st_) and not isinstance(st_, (ast.Import, ast.ImportFrom))]
+        plain = len(body_) == 1 and isinstance(body_[0], ast.Expr) and isinstance(body_[0].value, (ast.Call, ast.Await))
+        if called & starters and not called & stoppers:
+            return "start" if plain else "conditional start"
+        if called & stoppers and not called & starters:
+            return "stop" if plain else "conditional stop"
+        return None
+
+    def callback_def(e, fdefs, penv):
+        """the function definition a registered callback expression denotes (nested function, module-level function, method of the factory, a helper's parameter bound to one)"""
+        e = _alias_root(e, fdefs)
+        if isinstance(e, ast.Name):
+            return penv.get(e.id) or nested.get(e.id) or modfuncs.get(e.id)
+        if isinstance(e, ast.Attribute) and isinstance(e.value, ast.Name) and e.value.id in ("self", "cls", fcls.name):
+            return fac.methods(fcls).get(e.attr)
+        return None
+
+    def registrations(fn, var, depth=0, penv=None):
+        """{signal: [role | 'other:<text>' | '?<text>' (not resolved)]} for the registrations on the trace configuration held by the local / parameter `var` of fn; a helper of
+        the factory that is handed the configuration is followed (its parameters bound to the callbacks it is handed)"""
+        fdefs, penv = _ldefs(fn), penv or {}
+        out: dict = {}
+        for n in walk_body(fn):
+            if isinstance(n, ast.Attribute) and isinstance(n.value, ast.Name) and n.value.id == var and isinstance(n.ctx, ast.Load):
+                p_, pp = source.parent(n), source.parent(source.parent(n))
+                if isinstance(p_, ast.Attribute) and p_.attr == "append" and isinstance(pp, ast.Call) and pp.func is p_ and len(pp.args) == 1 and not pp.keywords:
+                    d = callback_def(pp.args[0], fdefs, penv)
+                    out.setdefault(n.attr, []).append(f"?{u(pp.args[0])}" if d is None else (classify(d) or f"other:{u(pp.args[0])}"))
+                elif not (isinstance(p_, ast.Call) and p_.func is n):  # a signal list used in some other way (extend, +=, handed on): not recognised
+                    out.setdefault(n.attr, []).append(f"?{short(source.enclosing_stmt(n), 50)}")
+            elif isinstance(n, ast.Call) and depth < 2 and any(isinstance(a, ast.Name) and a.id == var for a in list(n.args) + [k.value for k in n.keywords]):
+                callee = callback_def(n.func, {}, {})
+                if callee is not None:
+                    b = source.bind_args(n, callee)
+                    pn = [k for k, v in b.items() if isinstance(v, ast.Name) and v.id == var]
+                    penv2 = {k: callback_def(v, fdefs, penv) for k, v in b.items()}
+                    for k, v in (registrations(callee, pn[0], depth + 1, {k: v for k, v in penv2.items() if v is not None}) if pn else {}).items():
+                        out.setdefault(k, []).extend(v)
+        return out
+
+    table = registrations(f, tv)
     try:
         nf = node_failure_end(repo)
         node_ok = nf["ok"]
@@ -348,13 +931,16 @@ def trace_hook_table(chk, rid, repo):
     want = {"on_request_start": ["start"], "on_response_chunk_received": ["stop"], "on_request_end": ["stop"], _EXC_SIGNAL: ["stop"]}
     for sig in sorted(set(want) | set(table)):
         got = table.get(sig, [])
-        ok = (got == want[sig]) if sig in want else not any(r.endswith(("start", "stop")) for r in got)
+        ok = (got == want[sig]) if sig in want else not any(r in ("start", "stop", "conditional start", "conditional stop") for r in got)
         detail = f"registered: {got or 'nothing'}"
         if sig == _EXC_SIGNAL:
             # at least one of the two recorders of a failed request's end is unconditional; with the node-level handler in place the hook may be conditional or absent,
             # but nothing other than a stop callback may hang on the signal
             ok = ok or (node_ok and all(r in ("stop", "conditional stop") for r in got))
             detail += f"; node-level {_NODE_API} handler: {node_detail}"
+        if not ok and sig in want and any(r.startswith("?") for r in got):
+            chk.unknown(rid, f"trace signal {sig}: a registration could not be resolved to a callback of the factory ({[r[1:] for r in got if r.startswith('?')]})", tc[0])
+            continue
         chk.ob(rid, f"trace signal {sig} -> {want.get(sig, ['(nothing)'])[0]} the service-time clock", ok, tc[0], detail + ("" if ok else
                (" — the clock stops before the response body has arrived" if sig not in want and "stop" in got else
                 ((" — neither the exception hook nor the node-level handler records the end of a failed request unconditionally" if not node_ok else
@@ -366,231 +952,466 @@ def trace_hook_table(chk, rid, repo):
     chk.ob(rid, "the trace configuration is handed to the client", bool(used) or anyuse, tc[0], "")
 
 
+def _dict_origin_ok(name: str, f, R, depth=0):
+    """is the local / parameter `name` of holder method f the current context's dict (`<cv>.get()`)? True / False, None if it cannot be traced. A parameter is traced to the
+    arguments of every call of f inside the holder class (an extracted helper that is handed the dict)."""
+    d = local_defs(f).get(name)
+    if d is not None:
+        if isinstance(d, ast.Name) and depth < 5:
+            return _dict_origin_ok(d.id, f, R, depth + 1)
+        return _is_ctx_get(d, R.cv)
+    if name in params_of(f) and depth < 5:
+        callers = list(R.hm.values()) + [x for x in R.mod.tree.body if isinstance(x, source.FUNC_TYPES)]
+        if isinstance(source.parent(f), ast.ClassDef):
+            sites = [(c, g) for g in callers for c in source.calls_in(g) if isinstance(c.func, ast.Attribute) and isinstance(c.func.value, ast.Name)
+                     and c.func.value.id in ("cls", "self", R.RCH.name) and c.func.attr == f.name]
+        else:  # a module-level function of the context module
+            sites = [(c, g) for g in callers for c in source.calls_in(g) if isinstance(c.func, ast.Name) and c.func.id == f.name]
+        res = []
+        for c, g in sites:
+            a = source.bind_args(c, f, skip_self=isinstance(source.parent(f), ast.ClassDef) and "staticmethod" not in {last_attr(d_) for d_ in f.decorator_list}).get(name)
+            res.append(None if a is None else (_is_ctx_get(a, R.cv) or (_dict_origin_ok(a.id, g, R, depth + 1) if isinstance(a, ast.Name) else False)))
+        if not res or any(r is None for r in res):
+            return None
+        return all(res)
+    if any(isinstance(n, ast.Assign) and any(isinstance(t, ast.Name) and t.id == name for t in n.targets) for n in list(R.mod.tree.body) + list(R.RCH.body)):
+        return False  # a module- / class-level container is not the current context's dict
+    return None if name not in {n.id for n in walk_body(f) if isinstance(n, ast.Name) and isinstance(n.ctx, ast.Store)} else False
+
+
+def _fresh_dict(d, f, R, depth=0):
+    """is the expression d (in holder method f) a NEW, empty dict on every evaluation? True: an empty dict display / dict() (keys preset to None are as good as absent), also when a
+    method of the holder builds it; None: a parameter (not traced); False: anything else - a shared object (global, attribute, a literal that the parse-time constant propagation
+    N9 copied from a module- / class-level constant) or a mapping built by some other call (a view on the enclosing context, a copy of it)"""
+    if getattr(d, "_from_constant", False):
+        return False
+    if isinstance(d, ast.Dict):
+        return all(k is not None and source.is_const(v) and v.value is None for k, v in zip(d.keys, d.values))
+    if isinstance(d, ast.Call) and dotted(d.func) == "dict" and not d.args:
+        return all(k.arg is not None and source.is_const(k.value) and k.value.value is None for k in d.keywords)
+    if isinstance(d, ast.Call) and isinstance(d.func, ast.Attribute) and isinstance(d.func.value, ast.Name) and d.func.value.id in ("cls", "self", R.RCH.name) and d.func.attr in R.hm and depth < 3:
+        h = R.hm[d.func.attr]
+        rets = [n for n in walk_body(h) if isinstance(n, ast.Return) and n.value is not None]
+        return len(rets) == 1 and bool(_fresh_dict(source.inline_node(rets[0].value, local_defs(h)), h, R, depth + 1))
+    if isinstance(d, ast.Name) and f is not None and d.id in params_of(f):
+        return None
+    return False
+
+
+_PURE_READERS = ("len", "sorted", "tuple", "frozenset", "any", "all", "min", "max", "sum", "enumerate", "iter", "reversed")
+
+
+def _used_as_state(assign, mod) -> bool:
+    """is the module- / class-level container bound by `assign` used by any function of the module other than read-only (membership test, iteration, subscript load, len() and
+    the like)? Writing to it, calling a method on it, handing it to a call, storing or returning it all count."""
+    names = {t.id for t in assign.targets if isinstance(t, ast.Name)}
+    in_class = isinstance(source.parent(assign), ast.ClassDef)
+    lit = ast.dump(assign.value)
+    for n in ast.walk(mod.tree):
+        hit = (isinstance(n, ast.Name) and n.id in names and not in_class) or (isinstance(n, ast.Attribute) and n.attr in names and in_class and isinstance(n.value, ast.Name))
+        # the parse-time constant propagation (N9) replaces loads of a CONSTANT_CASE name by a copy of its literal: such a copy IS a use of the shared container
+        hit = hit or (getattr(n, "_from_constant", False) and isinstance(n, (ast.Dict, ast.List, ast.Set, ast.Call)) and ast.dump(n) == lit)
+        if not hit or source.enclosing_func(n) is None or n in assign.targets:
+            continue
+        p_ = source.parent(n)
+        if not isinstance(getattr(n, "ctx", ast.Load()), ast.Load):
+            return True
+        if isinstance(p_, ast.Compare) and n in p_.comparators and all(isinstance(o, (ast.In, ast.NotIn)) for o in p_.ops):
+            continue
+        if isinstance(p_, (ast.For, ast.AsyncFor, ast.comprehension)) and p_.iter is n:
+            continue
+        if isinstance(p_, ast.Subscript) and p_.value is n and isinstance(p_.ctx, ast.Load):
+            continue
+        if isinstance(p_, ast.Call) and n in p_.args and dotted(p_.func) in _PURE_READERS:
+            continue
+        return True
+    return False
+
+
+def _request_loop(drv):
+    """(AsyncExecutor.__call__, its request loop): the loop over the schedule - of the `async for` loops of the method the one that contains the runner invocation (the first
+    one if that cannot be told). Same role as rules.C04.request_loop; derived here so that this module does not depend on another rule module being importable."""
+    call = drv.methods(drv.cls("AsyncExecutor")).get("__call__")
+    if call is None:
+        raise AnchorMissing("AsyncExecutor.__call__")
+    loops = [n for n in walk_body(call) if isinstance(n, ast.AsyncFor)]
+    if not loops:
+        raise AnchorMissing("request loop (async for over the schedule)")
+    inner = [lp for lp in loops if any(isinstance(n, ast.Call) and last_attr(n.func) == "execute_single" for n in ast.walk(lp))]
+    return call, (inner[0] if inner else loops[0])
+
+
+def _merge_by_value(hm, key):
+    """the one-value holder method that records `key` (run abstractly with 7.0 on an empty context it leaves exactly {key: 7.0}); None if there is not exactly one"""
+    out = []
+    for f in hm.values():
+        if len(_value_params(f)) == 1:
+            try:
+                if run_holder(f, [7.0], {}).ctxd == {key: 7.0}:
+                    out.append(f)
+            except (_Stuck, _Raises):
+                pass
+    return out[0] if len(out) == 1 else None
+
+
 def run(chk):
     repo = chk.repo
     ctx, run_, drv = repo.module(_C), repo.module(_R), repo.module(_D)
     chk.use(ctx, run_, drv)
     chk.explanation = (
         "Decides the merge operator and isolation skeleton: values propagated from a child context to its parent on exit are merged with a commutative, idempotent, "
-        "None-safe operator (min for the start, max for the end) so that the exit order of concurrent children cannot matter; all timing state is reached through one "
-        "ContextVar whose only set installs a fresh dict and is reset on exit; propagation only when a parent exists; the executor and the composite's per-operation wrapper "
+        "None-safe operator (min for the start, max for the end) so that the exit order of concurrent children cannot matter (the holder methods are run abstractly, "
+        "together with the helpers they call, on a small value domain); all timing state is reached through one "
+        "ContextVar whose only set installs a fresh dict and is reset on exit; propagation only when a parent exists (guards evaluated on representative token / exception "
+        "states); the executor and the composite's per-operation wrapper "
         "each enclose exactly one delegate call in their own context and read start/end from that context; the wrapper computes over start/end only when both are present "
-        "(decided on None / 0.0 / ordinary values); a failed wire request's end is recorded by the node-level perform_request handler on every exceptional exit."
+        "(decided on None / 0.0 / ordinary values); a failed wire request's end is recorded by the node-level perform_request handler on every exceptional exit. "
+        "Roles (holder attribute, dict / token attributes, merge methods, context factory, sampler call) are derived from data flow, not from names of locals or attributes."
     )
     chk.not_decided = "asyncio scheduling, aiohttp trace timing (which signals aiohttp emits when), clock behaviour."
-    RCM = ctx.cls("RequestContextManager")
-    RCH = ctx.cls("RequestContextHolder")
-    hm = ctx.methods(RCH)
-    mm = ctx.methods(RCM)
+    R = context_roles(ctx)
+    RCM, RCH, hm, mm = R.RCM, R.RCH, R.hm, R.mm
 
-    # ---- O18.1 order-insensitive propagation -------------------------------------------------------------------------------------------
-    chk.rule("O18.1", "values propagated from a child context to its parent at exit are merged with a commutative, idempotent, None-safe operator: min for the start, max for the end", 4,
-             "two concurrent streams where the later-started one finishes first: the logical request's start is not the earliest start (or a sub-context without a request overwrites a value with None)")
-    ex = mm.get("__exit__")
-    if ex is None:
-        raise AnchorMissing("RequestContextManager.__exit__")
-    props = [c for c in source.calls_in(ex) if isinstance(c.func, ast.Attribute) and is_self_attr(c.func.value, "ctx_holder") and c.func.attr not in ("restore_context",)]
-    if len(props) < 1:
-        raise AnchorMissing("propagation calls in RequestContextManager.__exit__")
-    want = {"request_start": "min", "request_end": "max"}
-    seen = set()
-    exdefs = local_defs(ex)
-    for c in props:
-        f = hm.get(c.func.attr)
-        if f is None:
-            chk.ob("O18.1", f"propagation via {c.func.attr}", False, c, "unknown holder method")
-            continue
-        argt = source.inline(c.args[0], exdefs) if c.args else ""  # the propagated value, seen through single-assignment locals
-        key = "request_start" if "request_start" in argt else ("request_end" if "request_end" in argt else None)
-        if key is None:
-            chk.ob("O18.1", f"propagated value {argt}", False, c, "not the context's own start/end")
-            continue
-        seen.add(key)
-        kind, none_safe, store = merge_kind(f, key)
-        chk.ob("O18.1", f"{key} merged into the parent with {want[key]}", kind == want[key], store if store is not None else f,
-               f"operator of {f.name}: {kind}" + ("" if kind == want[key] else " — order-sensitive or wrong direction: the parent does not record the earliest start / latest end of all sub-requests"),
-               key=f"{_C}:{f.name}:merge:{key}")
-        chk.ob("O18.1", f"{key} merge ignores a missing child value", none_safe, store if store is not None else f, "" if none_safe else "a child context without a request propagates None", key=f"{_C}:{f.name}:none-safe:{key}")
-    chk.ob("O18.1", "both start and end are propagated", seen == {"request_start", "request_end"}, ex, f"propagated: {sorted(seen)}")
-    # the manager's properties read the same keys
-    for p, key in (("request_start", "request_start"), ("request_end", "request_end")):
-        f = mm.get(p)
-        rets = [source.inline(n.value, local_defs(f)) for n in walk_body(f) if isinstance(n, ast.Return) and n.value is not None] if f is not None else []
-        ok = any("self.ctx" in t and f"'{key}'" in t for t in rets)
-        chk.ob("O18.1", f"context property {p} reads key '{key}'", ok, f if f is not None else RCM, "")
-    # wire callbacks route through the same merge with the monotonic clock
-    for cb, upd in (("on_request_start", "update_request_start"), ("on_request_end", "update_request_end")):
-        f = hm.get(cb)
-        ok = f is not None and any(isinstance(n, ast.Call) and last_attr(n.func) == upd and n.args and pat.is_(source.inline_node(n.args[0], local_defs(f)), "time.perf_counter()") for n in walk_body(f))
-        chk.ob("O18.1", f"{cb} records perf_counter() through {upd}", ok, f if f is not None else RCH, "")
+    # Each rule is stated in a section of its own: an anchor that cannot be located makes THAT rule inconclusive (exit 2) and does not hide what the other rules find.
 
-    trace_hook_table(chk, "O18.1", repo)
-
-    # ---- O18.5 the end of a FAILED wire request (F39) -------------------------------------------------------------------------------------------
-    chk.rule("O18.5", "a wire request that fails has its end recorded when it fails, also after its response headers have arrived: the client's HTTP node overrides the library's "
-             "perform_request, and every transport-level failure that still yields a sample passes an unconditional end-recorder call of the request context holder before it "
-             "leaves the node, and still leaves it as a failure", 2,
-             "a request that times out / is disconnected while its body is read is recorded as ending when its HEADERS arrived (aiohttp's on_request_exception is only signalled "
-             "until then): the recorded end is not the latest end of all HTTP requests of the logical request")
-    nf = node_failure_end(repo)
-    nname = f"{nf['cls'].name}.{_NODE_API}"
-    for c, recorded, propagates, detail in nf["rows"]:
-        chk.ob("O18.5", f"a wire request failing with {c} ends (holder end-recorder, unconditional) before the failure leaves the node", recorded, nf["site"], detail,
-               key=f"{_A}:{nname}:end-on-failure:{c}")
-        chk.ob("O18.5", f"a wire request failing with {c} still fails (the node-level handler re-raises)", propagates, nf["site"],
-               "" if propagates else "a path through the interceptor completes normally: the failed request is reported as a response", key=f"{_A}:{nname}:failure-propagates:{c}")
-
-    # ---- O18.2 isolation ---------------------------------------------------------------------------------------------------------------------
-    chk.rule("O18.2", "all timing state is reached through one ContextVar; its only set installs a fresh dict; reset(token) on exit before propagation; propagation only when the token had an old value; "
-             "no module- or class-level mutable timing state", 6,
-             "two clients in one process: one client's request timings leak into the other's samples")
-    cvars = [n for n in RCH.body if isinstance(n, ast.Assign) and isinstance(n.value, ast.Call) and last_attr(n.value.func) == "ContextVar"]
-    chk.ob("O18.2", "one ContextVar holds the request context", len(cvars) == 1, cvars[0] if cvars else RCH, f"{len(cvars)} ContextVar(s)")
-    cv = cvars[0].targets[0].id if cvars else "request_context"
-    mut = [n for n in list(RCH.body) + list(ctx.tree.body) if isinstance(n, ast.Assign) and isinstance(n.value, (ast.Dict, ast.List, ast.Set)) or
-           (isinstance(n, ast.Assign) and isinstance(n.value, ast.Call) and dotted(n.value.func) in ("dict", "list", "set", "collections.defaultdict"))]
-    chk.ob("O18.2", "no module/class-level mutable container in the context module", not mut, mut[0] if mut else RCH, "")
-    sets = [n for n in ast.walk(ctx.tree) if isinstance(n, ast.Call) and last_attr(n.func) == "set" and isinstance(n.func, ast.Attribute) and last_attr(n.func.value) == cv]
-    ok = len(sets) == 1
-    fresh = False
-    if ok and sets[0].args:
-        a = sets[0].args[0]
-        f = source.enclosing_func(sets[0])
-        d = local_defs(f).get(a.id) if isinstance(a, ast.Name) and f is not None else a  # the installed value, through the local it was built in
-        fresh = isinstance(d, ast.Dict) and not d.keys
-    chk.ob("O18.2", "single ContextVar.set, installing a fresh dict", ok and fresh, sets[0] if sets else RCH, f"{len(sets)} set site(s), fresh={fresh}")
-    if sets and source.enclosing_func(sets[0]) is not None:
-        f = source.enclosing_func(sets[0])
-        r = [n for n in walk_body(f) if isinstance(n, ast.Return)]
-        ok = len(r) == 1 and isinstance(r[0].value, ast.Tuple) and len(r[0].value.elts) == 2
-        chk.ob("O18.2", "init returns (dict, token)", ok, f, "")
-    ent = mm.get("__enter__")
-    ok = ent is not None and any(isinstance(n, ast.Assign) and isinstance(n.targets[0], ast.Tuple) and [u(t) for t in n.targets[0].elts] == ["self.ctx", "self.token"]
-                                 and pat.is_(source.inline_node(n.value, local_defs(ent)), "E_holder.init_request_context()") for n in walk_body(ent))
-    chk.ob("O18.2", "__enter__ stores (ctx, token) from init_request_context()", ok, ent if ent is not None else RCM, "")
-    g = cfg_of(ex)
-    resets = [c for c in source.calls_in(ex) if last_attr(c.func) == "restore_context"]
-    ok = len(resets) == 1 and len(resets[0].args) == 1 and source.inline(resets[0].args[0], exdefs) == "self.token" and not guards(resets[0]) and all(g.dominated_by_nodes(g.node_of(p), [g.node_of(resets[0])]) for p in props)
-    chk.ob("O18.2", "context restored (reset(token)) unconditionally before propagation", ok, resets[0] if resets else ex, "")
-    ok = bool(resets) and g.must_pass(g.entry, [g.node_of(r_) for r_ in resets])
-    pth = None
-    if resets and not ok:
-        p_ = g.find_path(g.entry, g.exit, avoid=[g.node_of(r_) for r_ in resets])
-        pth = g.describe_path(p_) if p_ else None
-    chk.ob("O18.2", "every normal exit of __exit__ has restored the enclosing context", ok, resets[0] if resets else ex,
-           "" if ok else "a path leaves the context manager without reset(token): later requests of the task are booked on the stale nested context", path=pth,
-           key=f"{_C}:RequestContextManager.__exit__:restore-on-every-exit")
-    rc = hm.get("restore_context")
-    ok = rc is not None and any(isinstance(n, ast.Call) and isinstance(n.func, ast.Attribute) and n.func.attr == "reset" and last_attr(n.func.value) == cv and len(n.args) == 1
-                                and source.inline(n.args[0], local_defs(rc)) == params_of(rc)[-1] for n in walk_body(rc))
-    chk.ob("O18.2", "restore_context resets the ContextVar with the token", ok, rc if rc is not None else RCH, "")
-    propagation_guard_rule(chk, "O18.2", ctx)
-    # __exit__ does not swallow exceptions
-    rets = [n for n in walk_body(ex) if isinstance(n, ast.Return)]
-    ok = all(r.value is None or source.is_const(source.inline_node(r.value, exdefs), False) for r in rets)
-    chk.ob("O18.2", "__exit__ never swallows exceptions", ok, ex, "")
-    # every reader goes through ContextVar.get()
-    for name, f in hm.items():
-        for n in walk_body(f):
-            if isinstance(n, ast.Subscript) and isinstance(n.value, ast.Name) and isinstance(n.ctx, ast.Store):
-                d = local_defs(f).get(n.value.id)
-                ok = isinstance(d, ast.Call) and isinstance(d.func, ast.Attribute) and d.func.attr == "get" and last_attr(d.func.value) == cv
-                chk.ob("O18.2", f"{name}: timing written into the current context's dict", ok, n, f"{n.value.id} = {u(d) if d is not None else '?'}")
-
-    # ---- O18.3 enclosure -------------------------------------------------------------------------------------------------------------------------
-    chk.rule("O18.3", "the executor's runner invocation is inside a fresh request context per request and reads start/end from that context; the composite's per-operation wrapper "
-             "encloses exactly the delegate call in its own context and computes its service time from that context; every sub-request of the composite is wrapped", 6,
-             "a sub-request's timing covers its siblings, or the logical request misses sub-requests issued outside its context")
-    from rules.C04 import request_loop
-
-    call, L = request_loop(drv)
-    withs = [n for n in ast.walk(L) if isinstance(n, ast.With) and any("new_request_context" in u(i.context_expr) for i in n.items)]
-    ok = len(withs) == 1 and source.enclosing(withs[0], (ast.AsyncFor, ast.For, ast.While)) is L
-    chk.ob("O18.3", "executor: one fresh request context per request (inside the loop)", ok, withs[0] if withs else L, "")
-    if withs:
-        cvn = _bound_context(withs[0])
-        runs = [n for n in ast.walk(withs[0]) if isinstance(n, ast.Call) and last_attr(n.func) == "execute_single"]
-        chk.ob("O18.3", "executor: runner invoked inside its context", len(runs) == 1, withs[0], "")
-        reads = [n for n in ast.walk(L) if isinstance(n, ast.Attribute) and n.attr in ("request_start", "request_end") and isinstance(n.value, ast.Name)]
-        ok = bool(reads) and all(r.value.id == cvn for r in reads)
-        chk.ob("O18.3", "executor: start/end read from that context object", ok, reads[0] if reads else L, "")
-        # reads happen after the runner returned
-        gg = cfg_of(call)
-        ok = all(gg.dominated_by_nodes(gg.node_of(r), [gg.node_of(runs[0])]) for r in reads) if runs else False
-        chk.ob("O18.3", "executor: start/end read after the runner returned", ok, reads[0] if reads else L, "")
-        # what the sample records as the start of the logical request is the context's (earliest) request start, not another clock reading of the same type
-        adds = [n for n in ast.walk(L) if isinstance(n, ast.Call) and u(n.func) == "self.sampler.add"]
-        sadd = drv.methods(drv.cls("Sampler")).get("add")
-        ok = False
-        detail = ""
-        if adds and sadd is not None:
-            ldefs = {n.targets[0].id: n.value for n in ast.walk(L) if isinstance(n, ast.Assign) and len(n.targets) == 1 and isinstance(n.targets[0], ast.Name)}
-            b_ = source.bind_args(adds[0], sadd)
-            rsv = b_.get("request_start")
-            got = source.inline(rsv, ldefs, no_calls=True) if rsv is not None else None
-            ok = got == f"{cvn}.request_start"
-            detail = f"request_start := {got}"
-        chk.ob("O18.3", "executor: the sample's request_start is the context's request_start", ok, adds[0] if adds else L, detail, key=f"{_D}:AsyncExecutor.__call__:sample-request-start")
-    RT = run_.cls("RequestTiming")
-    rt = run_.methods(RT).get("__call__")
-    if rt is None:
-        raise AnchorMissing("RequestTiming.__call__")
-    rw = [n for n in walk_body(rt) if isinstance(n, ast.With) and any("new_request_context" in u(i.context_expr) for i in n.items)]
-    ok = len(rw) == 1
-    chk.ob("O18.3", "per-operation wrapper opens its own context", ok, rw[0] if rw else rt, "")
-    if rw:
-        cvn = _bound_context(rw[0])
-        dels = [n for n in walk_body(rt) if isinstance(n, ast.Call) and u(n.func) == "self.delegate"]
-        ok = len(dels) == 1 and rw[0] in list(source.ancestors(dels[0]))
-        chk.ob("O18.3", "wrapper: exactly one delegate call, inside the context", ok, dels[0] if dels else rt, f"{len(dels)} delegate call(s)")
-        rdefs = local_defs(rt)
-        st = [n for n in ast.walk(rt) if isinstance(n, ast.Dict) and any(source.is_const(k, "service_time") for k in n.keys)]
-        ok = False
-        if st:
-            d = dict((k.value, v) for k, v in zip(st[0].keys, st[0].values) if isinstance(k, ast.Constant))
-            from sa.sym import parse_expr, rat_equal
-
-            ok = rat_equal(source.inline_node(d["service_time"], rdefs), parse_expr(f"{cvn}.request_end - {cvn}.request_start")) \
-                and all(d.get(k_) is not None and source.inline(d[k_], rdefs) == f"{cvn}.{k_}" for k_ in ("request_start", "request_end"))
-        chk.ob("O18.3", "wrapper: service_time == ctx.request_end - ctx.request_start of its own context", ok, st[0] if st else rt, "")
-        gr = cfg_of(rt)
-        reads = [n for n in walk_body(rt) if isinstance(n, ast.Attribute) and n.attr in ("request_start", "request_end") and isinstance(n.value, ast.Name) and n.value.id == cvn]
-        ok = bool(reads) and bool(dels) and all(gr.dominated_by_nodes(gr.node_of(r), [gr.node_of(dels[0])]) for r in reads)
-        chk.ob("O18.3", "wrapper: timings read after the delegate returned", ok, reads[0] if reads else rt, "")
-        # F38: a sub-request context without any wire request is a legal leaf of the context tree (get-async-search skips completed searches): its start and end are None.
-        # Every arithmetic on the context's start / end must be unreachable for a missing value, and reachable for every pair of present values (0.0 is a time, not 'missing').
-        arith = [n for n in walk_body(rt) if isinstance(n, ast.BinOp) and isinstance(n.op, (ast.Sub, ast.Add)) and _mentions(source.inline_node(n, rdefs), cvn, ("request_start", "request_end"))]
-        wkey = f"{_R}:RequestTiming.__call__"
-        if not arith:
-            chk.ob("O18.3", "wrapper: no arithmetic on a missing start / end (a sub-request that sent no wire request)", False, st[0] if st else rt,
-                   "no computation over the context's request_start / request_end found in the wrapper", key=f"{wkey}:timing-none-guard")
-        for n in arith:
-            try:
-                table, facts = timing_presence_table(n, cvn, rdefs)
-            except CannotEval as x:
-                chk.unknown("O18.3", f"wrapper: a guard of `{short(n, 50)}` that speaks about the context's start / end cannot be evaluated ({x})", n)
+    def o18_1():
+        # ---- O18.1 order-insensitive propagation -------------------------------------------------------------------------------------------
+        chk.rule("O18.1", "values propagated from a child context to its parent at exit are merged with a commutative, idempotent, None-safe operator: min for the start, max for the end", 4,
+                 "two concurrent streams where the later-started one finishes first: the logical request's start is not the earliest start (or a sub-context without a request overwrites a value with None)")
+        ex, props = _propagations(R)
+        _need(R, "ctx_attr", "token_attr")
+        want = {"request_start": "min", "request_end": "max"}
+        seen = set()
+        undecided = False
+        merge_of = {}
+        for c, chain in props:
+            f = hm[c.func.attr]
+            if not c.args and not c.keywords:
+                chk.ob("O18.1", f"propagated value of {c.func.attr}()", False, c, "not the context's own start/end: nothing of the child context is handed to the parent")
                 continue
-            crash = sorted((k for k, reached in table.items() if reached and None in k), key=lambda k: (sum(v is not None for v in k), str(k)))  # the all-missing row first
-            lost = sorted((k for k, reached in table.items() if not reached and None not in k), key=str)
-            chk.ob("O18.3", "wrapper: no arithmetic on a missing start / end (a sub-request that sent no wire request)", not crash, n,
-                   f"`{short(n, 50)}` under {facts or 'no guard on start / end'}" + ("" if not crash else f": evaluated for (start, end) = {crash[0]} -> TypeError, the task fails although "
-                                                                                   "the composite's other sub-requests were timed"), key=f"{wkey}:timing-none-guard")
-            chk.ob("O18.3", "wrapper: a sub-request that did send a request keeps its timing whatever the values (0.0 is a time)", not lost, n,
-                   f"`{short(n, 50)}` under {facts or 'no guard on start / end'}" + ("" if not lost else f": skipped for (start, end) = {lost[0]}"), key=f"{wkey}:timing-kept-when-present")
-    CO = run_.cls("Composite")
-    rs = run_.methods(CO).get("run_stream")
-    if rs is None:
-        raise AnchorMissing("Composite.run_stream")
-    rf = [n for n in walk_body(rs) if isinstance(n, ast.Call) and last_attr(n.func) == "runner_for"]
-    ok = bool(rf) and all(isinstance(source.parent(n), ast.Call) and last_attr(source.parent(n).func) == "RequestTiming" for n in rf)
-    chk.ob("O18.3", "composite: every dispatched sub-request runner is wrapped in the timing wrapper", ok, rf[0] if rf else rs, f"{len(rf)} dispatch site(s)")
-    cc = run_.methods(CO).get("__call__")
-    ok = cc is not None and any(isinstance(n, ast.Call) and last_attr(n.func) == "run_stream" for n in walk_body(cc))
-    chk.ob("O18.3", "composite runs its streams from __call__", ok, cc if cc is not None else CO, "")
-    # O18.4 advisory: concurrent streams as tasks created in the composite's context
-    ct = [n for n in walk_body(rs) if isinstance(n, ast.Call) and dotted(n.func) == "asyncio.create_task"]
-    if not ct:
-        chk.adv("O18.4", "composite streams are no longer started with asyncio.create_task inside run_stream (context chaining to the request's dict not established this way)", rs)
+            arg = _chain_arg(chain, c.args[0] if c.args else c.keywords[0].value)  # the propagated value, seen through single-assignment locals and helper parameters
+            try:
+                key = _own_key(arg, R)
+            except CannotEval as x:
+                chk.unknown("O18.1", f"the value `{short(arg, 50)}` propagated by __exit__ cannot be evaluated on the context's own dict ({x})", c)
+                undecided = True
+                continue
+            if key is None:
+                chk.ob("O18.1", f"propagated value {u(arg)}", False, c, "not the context's own start/end")
+                continue
+            seen.add(key)
+            merge_of.setdefault(key, f)
+            kind, none_safe, store = merge_kind(f, key)
+            site = store if store is not None else f
+            if kind == "unknown":
+                chk.unknown("O18.1", f"the merge performed by {f.name} for '{key}' could not be evaluated (statement outside the interpreted fragment)", f)
+            else:
+                chk.ob("O18.1", f"{key} merged into the parent with {want[key]}", kind == want[key], site,
+                       f"operator of {f.name}: {kind}" + ("" if kind == want[key] else " — order-sensitive or wrong direction: the parent does not record the earliest start / latest end of all sub-requests"),
+                       key=f"{_C}:{f.name}:merge:{key}")
+            if none_safe is None:
+                chk.unknown("O18.1", f"whether {f.name} ignores a missing (None) value could not be evaluated", f)
+            else:
+                chk.ob("O18.1", f"{key} merge ignores a missing child value", none_safe, site, "" if none_safe else "a child context without a request propagates None", key=f"{_C}:{f.name}:none-safe:{key}")
+        if not undecided:
+            chk.ob("O18.1", "both start and end are propagated", seen == {"request_start", "request_end"}, ex, f"propagated: {sorted(seen)}")
+        # the manager's properties read the same keys of the dict that __enter__ installed (decided by value: a dict with a distinct marker per key; an empty dict -> None)
+        for p in _KEYS:
+            f = mm.get(p)
+            if f is None or "property" not in {last_attr(d) for d in f.decorator_list}:
+                chk.unknown("O18.1", f"RequestContextManager has no property {p}", RCM)
+                continue
+            read = ast.parse(f"self.{p}", mode="eval").body
+            try:
+                ok = _own_key(read, R) == p
+            except CannotEval as x:
+                chk.unknown("O18.1", f"the value of the context property {p} cannot be evaluated ({x})", f)
+                continue
+            detail = ""
+            if ok:
+                try:
+                    v = _ev(_props_inlined(read, R), {"self": Record(**{R.ctx_attr: {}})})
+                    ok, detail = v is None, "" if v is None else f"without a wire request the property yields {v!r}, not None"
+                except CannotEval as x:
+                    if str(x).endswith(": KeyError"):
+                        ok, detail = False, "a context without a wire request (a legal leaf, F38) raises KeyError instead of yielding None"
+            chk.ob("O18.1", f"context property {p} reads key '{p}'", ok, f, detail)
+        # wire callbacks route through the same merge with the monotonic clock: for every reachable state and clock reading t the callback leaves the context exactly as merge(t) does
+        for cb, key in (("on_request_start", "request_start"), ("on_request_end", "request_end")):
+            f, upd = hm.get(cb), merge_of.get(key) or _merge_by_value(hm, key)
+            if f is None or upd is None:
+                chk.unknown("O18.1", f"wire callback {cb} / the merge method for '{key}' not located", RCH)
+                continue
+            ok, detail = True, ""
+            try:
+                for _, st in _states(key):
+                    for t in _NEW:
+                        try:
+                            a = run_holder(f, [], st, clock=t).ctxd
+                        except _Raises:
+                            a = _RAISED
+                        try:
+                            b = run_holder(upd, [t], st).ctxd
+                        except _Raises:
+                            b = _RAISED
+                        if ok and (a is _RAISED or a != b):
+                            ok, detail = False, f"on context {st} at clock reading {t}: {cb}() leaves {'an exception' if a is _RAISED else a}, {upd.name}({t}) leaves {'an exception' if b is _RAISED else b}"
+            except _Stuck as x:
+                chk.unknown("O18.1", f"{cb} could not be evaluated ({x})", f)
+                continue
+            chk.ob("O18.1", f"{cb} records perf_counter() through {upd.name}", ok, f, detail)
+
+        trace_hook_table(chk, "O18.1", repo)
+
+    def o18_5():
+        # ---- O18.5 the end of a FAILED wire request (F39) -------------------------------------------------------------------------------------------
+        chk.rule("O18.5", "a wire request that fails has its end recorded when it fails, also after its response headers have arrived: the client's HTTP node overrides the library's "
+                 "perform_request, and every transport-level failure that still yields a sample passes an unconditional end-recorder call of the request context holder before it "
+                 "leaves the node, and still leaves it as a failure", 2,
+                 "a request that times out / is disconnected while its body is read is recorded as ending when its HEADERS arrived (aiohttp's on_request_exception is only signalled "
+                 "until then): the recorded end is not the latest end of all HTTP requests of the logical request")
+        nf = node_failure_end(repo)
+        nname = f"{nf['cls'].name}.{_NODE_API}"
+        for c, recorded, propagates, detail in nf["rows"]:
+            chk.ob("O18.5", f"a wire request failing with {c} ends (holder end-recorder, unconditional) before the failure leaves the node", recorded, nf["site"], detail,
+                   key=f"{_A}:{nname}:end-on-failure:{c}")
+            chk.ob("O18.5", f"a wire request failing with {c} still fails (the node-level handler re-raises)", propagates, nf["site"],
+                   "" if propagates else "a path through the interceptor completes normally: the failed request is reported as a response", key=f"{_A}:{nname}:failure-propagates:{c}")
+
+    def o18_2():
+        # ---- O18.2 isolation ---------------------------------------------------------------------------------------------------------------------
+        chk.rule("O18.2", "all timing state is reached through one ContextVar; its only set installs a fresh dict; reset(token) on exit before propagation; propagation only when the token had an old value; "
+                 "no module- or class-level mutable timing state", 6,
+                 "two clients in one process: one client's request timings leak into the other's samples")
+        ex, props = _propagations(R)
+        _need(R, "ctx_attr", "token_attr")
+        cvars = [n for n in RCH.body if isinstance(n, ast.Assign) and isinstance(n.value, ast.Call) and last_attr(n.value.func) == "ContextVar"]
+        chk.ob("O18.2", "one ContextVar holds the request context", len(cvars) == 1, cvars[0] if cvars else RCH, f"{len(cvars)} ContextVar(s)")
+        cv = R.cv
+        mut = [n for n in list(RCH.body) + list(ctx.tree.body) if isinstance(n, ast.Assign) and isinstance(n.value, (ast.Dict, ast.List, ast.Set)) or
+               (isinstance(n, ast.Assign) and isinstance(n.value, ast.Call) and dotted(n.value.func) in ("dict", "list", "set", "collections.defaultdict"))]
+        mut = [n for n in mut if _used_as_state(n, ctx)]  # a literal table that is only ever read (membership, iteration, lookup) is not state
+        chk.ob("O18.2", "no module/class-level mutable container in the context module", not mut, mut[0] if mut else RCH,
+               "" if not mut else f"`{short(mut[0], 60)}` is written to, handed on or stored by a function of the module")
+        sets = [n for n in ast.walk(ctx.tree) if isinstance(n, ast.Call) and last_attr(n.func) == "set" and isinstance(n.func, ast.Attribute) and last_attr(n.func.value) == cv]
+        ok = len(sets) == 1
+        fresh = False
+        if ok and sets[0].args:
+            a = sets[0].args[0]
+            f = source.enclosing_func(sets[0])
+            d = _alias_root(a, local_defs(f)) if f is not None else a  # the installed value, through the local it was built in
+            d = local_defs(f).get(d.id, d) if isinstance(d, ast.Name) and f is not None else d
+            fresh = _fresh_dict(d, f, R)
+        if ok and fresh is None:
+            chk.unknown("O18.2", "the value installed by ContextVar.set is a parameter of the init method: whether it is a fresh dict could not be traced", sets[0])
+        else:
+            chk.ob("O18.2", "single ContextVar.set, installing a fresh dict", ok and bool(fresh), sets[0] if sets else RCH, f"{len(sets)} set site(s), fresh={fresh}")
+        if sets and source.enclosing_func(sets[0]) is not None:
+            f = source.enclosing_func(sets[0])
+            pos_d, pos_t, _ = _init_shape(f, cv)
+            r = [n for n in walk_body(f) if isinstance(n, ast.Return)]
+            ok = len(r) == 1 and isinstance(r[0].value, ast.Tuple) and len(r[0].value.elts) == 2 and pos_d is not None and pos_t is not None
+            chk.ob("O18.2", "init returns (dict, token)", ok, f, "" if ok else "the init method does not return exactly the dict it installed and the token of that set()")
+        ent = mm.get("__enter__")
+        if ent is None or R.unpack is None:
+            chk.unknown("O18.2", "the assignment in RequestContextManager.__enter__ that takes the result of the holder's init method was not located", ent if ent is not None else RCM)
+        else:
+            t = R.unpack.targets[0]
+            ok = isinstance(t, ast.Tuple) and len(t.elts) == 2 and all(is_self_attr(e) for e in t.elts) and t.elts[0].attr != t.elts[1].attr and R.ctx_attr is not None and R.token_attr is not None
+            chk.ob("O18.2", "__enter__ stores (ctx, token) from init_request_context()", ok, R.unpack, "" if ok else f"the (dict, token) pair is unpacked into `{u(t)}`")
+        resets = _restore_calls(ex, R)
+        if not resets:  # __exit__ and everything it calls on the holder were located: nothing restores the enclosing context
+            chk.ob("O18.2", "context restored (reset(token)) unconditionally before propagation", False, ex, "nothing reached from __exit__ resets the ContextVar")
+        else:
+            rc_, rch_ = resets[0]
+            ok = len(resets) == 1 and len(rc_.args) == 1 and u(_chain_arg(rch_, rc_.args[0])) == f"self.{R.token_attr}" and not any(guards(x) for x in rch_) \
+                and all(_chain_dominated(pch, rch_) for _, pch in props)
+            chk.ob("O18.2", "context restored (reset(token)) unconditionally before propagation", ok, rc_, "")
+        # (the obligation "every normal exit of __exit__ has restored the enclosing context" is stated by propagation_guard_rule below, which C04 shares)
+        if len(R.restore) != 1:
+            chk.unknown("O18.2", f"{len(R.restore)} holder methods reset the ContextVar", RCH)
+        else:
+            rc = R.restore[0]
+            ok = any(len(n.args) == 1 and not n.keywords and source.inline(n.args[0], local_defs(rc)) in _value_params(rc) for n in _cv_calls(rc, cv, "reset"))
+            chk.ob("O18.2", "restore_context resets the ContextVar with the token", ok, rc, "")
+        propagation_guard_rule(chk, "O18.2", ctx)
+        # __exit__ does not swallow exceptions: whatever it returns is a falsy constant
+        exdefs = local_defs(ex)
+        rets = [n for n in walk_body(ex) if isinstance(n, ast.Return)]
+        ok = all(r.value is None or (isinstance(source.inline_node(r.value, exdefs), ast.Constant) and not source.inline_node(r.value, exdefs).value) for r in rets)
+        chk.ob("O18.2", "__exit__ never swallows exceptions", ok, ex, "")
+        # every writer goes through ContextVar.get(): the dict a holder method stores into is the current context's (traced through locals and, for a helper, through its callers)
+        for name, f in list(hm.items()) + [(x.name, x) for x in ctx.tree.body if isinstance(x, source.FUNC_TYPES)]:
+            for n in walk_body(f):
+                if isinstance(n, ast.Subscript) and isinstance(n.value, ast.Name) and isinstance(n.ctx, ast.Store):
+                    ok = _dict_origin_ok(n.value.id, f, R)
+                    if ok is None:
+                        chk.unknown("O18.2", f"{name}: the origin of the dict `{n.value.id}` that is written to could not be traced", n)
+                        continue
+                    d = local_defs(f).get(n.value.id)
+                    chk.ob("O18.2", f"{name}: timing written into the current context's dict", ok, n, f"{n.value.id} = {u(d) if d is not None else '(not a single-assignment local)'}")
+
+    def o18_3():
+        # ---- O18.3 enclosure -------------------------------------------------------------------------------------------------------------------------
+        chk.rule("O18.3", "the executor's runner invocation is inside a fresh request context per request and reads start/end from that context; the composite's per-operation wrapper "
+                 "encloses exactly the delegate call in its own context and computes its service time from that context; every sub-request of the composite is wrapped", 6,
+                 "a sub-request's timing covers its siblings, or the logical request misses sub-requests issued outside its context")
+        if not R.factories:
+            raise AnchorMissing("RequestContextHolder: no method returns a new RequestContextManager (the context factory)")
+        call, L = _request_loop(drv)
+        cdefs = _ldefs(call)
+        allw = _context_withs(call, R.factories)
+        withs = [(w, i, how) for w, i, how in allw if L in list(source.ancestors(w))]
+        if not allw:
+            chk.unknown("O18.3", "executor: no with statement entering a request context (call of the holder's context factory) located in AsyncExecutor.__call__", L)
+        else:
+            ok = len(withs) == 1 and withs[0][2] == "call" and source.enclosing(withs[0][0], (ast.AsyncFor, ast.For, ast.While)) is L
+            chk.ob("O18.3", "executor: one fresh request context per request (inside the loop)", ok, withs[0][0] if withs else allw[0][0], "" if ok else
+                   f"{len(withs)} context(s) entered inside the request loop, {len(allw) - len(withs)} outside" + ("; the context object is kept in instance state" if any(h == "attr" for _, _, h in allw) else ""))
+        if withs:
+            W = withs[0][0]
+            cvn = _bound_context(W, withs[0][1])
+            runs = [n for n in ast.walk(W) if isinstance(n, ast.Call) and last_attr(_alias_root(n.func, cdefs)) == "execute_single"]
+            allruns = [n for n in ast.walk(L) if isinstance(n, ast.Call) and last_attr(_alias_root(n.func, cdefs)) == "execute_single"]
+            if not allruns:
+                chk.unknown("O18.3", "executor: the runner invocation (execute_single) was not located in the request loop", L)
+            else:
+                chk.ob("O18.3", "executor: runner invoked inside its context", len(runs) == 1, W, "" if runs else "the runner is invoked outside the request context")
+            reads = [n for n in ast.walk(L) if isinstance(n, ast.Attribute) and n.attr in _KEYS and isinstance(n.value, ast.Name) and isinstance(n.ctx, ast.Load)]
+            if not reads:
+                chk.unknown("O18.3", "executor: no read of <context>.request_start / .request_end located in the request loop", L)
+            else:
+                ok = all(u(_alias_root(r.value, cdefs)) == cvn for r in reads)
+                chk.ob("O18.3", "executor: start/end read from that context object", ok, reads[0], "")
+                # reads happen after the runner returned
+                if runs:
+                    gg = cfg_of(call)
+                    ok = all(gg.dominated_by_nodes(gg.node_of(r), [gg.node_of(runs[0])]) for r in reads)
+                    chk.ob("O18.3", "executor: start/end read after the runner returned", ok, reads[0], "")
+            # what the sample records as the start of the logical request is the context's (earliest) request start, not another clock reading of the same type.
+            # The sampler call is located by data flow: the call in the loop whose callee - seen through hoisted locals - is the `add` method and whose arguments bind Sampler.add's
+            # request_start parameter
+            sadd = drv.methods(drv.cls("Sampler")).get("add")
+            if sadd is None:
+                raise AnchorMissing("Sampler.add")
+            adds = []
+            for n in ast.walk(L):
+                if isinstance(n, ast.Call):
+                    fn = _alias_root(n.func, cdefs)
+                    if isinstance(fn, ast.Attribute) and fn.attr == sadd.name and "request_start" in source.bind_args(n, sadd):
+                        adds.append(n)
+            if not adds:
+                chk.unknown("O18.3", "executor: the call that hands the sample to Sampler.add was not located in the request loop", L)
+            else:
+                ldefs = {n.targets[0].id: n.value for n in ast.walk(L) if isinstance(n, ast.Assign) and len(n.targets) == 1 and isinstance(n.targets[0], ast.Name)}
+                for n in ast.walk(L):  # parallel assignment `a, b = x, y`
+                    if isinstance(n, ast.Assign) and len(n.targets) == 1 and isinstance(n.targets[0], ast.Tuple) and isinstance(n.value, ast.Tuple) and len(n.targets[0].elts) == len(n.value.elts):
+                        ldefs.update({t.id: v for t, v in zip(n.targets[0].elts, n.value.elts) if isinstance(t, ast.Name)})
+                rsv = source.bind_args(adds[0], sadd).get("request_start")
+                got = source.inline(rsv, ldefs, no_calls=True)
+                chk.ob("O18.3", "executor: the sample's request_start is the context's request_start", got == f"{cvn}.request_start", adds[0], f"request_start := {got}",
+                       key=f"{_D}:AsyncExecutor.__call__:sample-request-start")
+        RT = run_.cls("RequestTiming")
+        rt = run_.methods(RT).get("__call__")
+        if rt is None:
+            raise AnchorMissing("RequestTiming.__call__")
+        rdefs = _ldefs(rt)
+        rw = _context_withs(rt, R.factories)
+        if not rw:
+            chk.unknown("O18.3", "per-operation wrapper: no with statement entering a request context located in RequestTiming.__call__", rt)
+        else:
+            ok = len(rw) == 1 and rw[0][2] == "call"
+            chk.ob("O18.3", "per-operation wrapper opens its own context", ok, rw[0][0], "" if ok else
+                   ("the context object is kept in instance state: concurrent invocations of the wrapper share it" if any(h == "attr" for _, _, h in rw) else f"{len(rw)} contexts"))
+        if rw and rw[0][2] == "call":
+            W = rw[0][0]
+            cvn = _bound_context(W, rw[0][1])
+            dels = [n for n in walk_body(rt) if isinstance(n, ast.Call) and u(_alias_root(n.func, rdefs)) == "self.delegate"]
+            if not dels:
+                chk.unknown("O18.3", "wrapper: the call of the wrapped runner (self.delegate) was not located", rt)
+            else:
+                ok = len(dels) == 1 and W in list(source.ancestors(dels[0]))
+                chk.ob("O18.3", "wrapper: exactly one delegate call, inside the context", ok, dels[0], f"{len(dels)} delegate call(s)")
+            st = [n for n in ast.walk(rt) if isinstance(n, ast.Dict) and any(source.is_const(k, "service_time") for k in n.keys)]
+            if not st:
+                chk.unknown("O18.3", "wrapper: the timing record (a dict display with the key 'service_time') was not located", rt)
+            else:
+                d = dict((k.value, v) for k, v in zip(st[0].keys, st[0].values) if isinstance(k, ast.Constant))
+                from sa.sym import parse_expr, rat_equal
+
+                ok = rat_equal(source.inline_node(d["service_time"], rdefs), parse_expr(f"{cvn}.request_end - {cvn}.request_start")) \
+                    and all(d.get(k_) is not None and source.inline(d[k_], rdefs) == f"{cvn}.{k_}" for k_ in _KEYS)
+                chk.ob("O18.3", "wrapper: service_time == ctx.request_end - ctx.request_start of its own context", ok, st[0], "")
+            gr = cfg_of(rt)
+            reads = [n for n in walk_body(rt) if isinstance(n, ast.Attribute) and n.attr in _KEYS and isinstance(n.value, ast.Name) and u(_alias_root(n.value, rdefs)) == cvn]
+            if not reads or not dels:
+                chk.unknown("O18.3", "wrapper: no read of the context's request_start / request_end located", rt)
+            else:
+                ok = all(gr.dominated_by_nodes(gr.node_of(r), [gr.node_of(dels[0])]) for r in reads)
+                chk.ob("O18.3", "wrapper: timings read after the delegate returned", ok, reads[0], "")
+            # F38: a sub-request context without any wire request is a legal leaf of the context tree (get-async-search skips completed searches): its start and end are None.
+            # Every arithmetic on the context's start / end must be unreachable for a missing value, and reachable for every pair of present values (0.0 is a time, not 'missing').
+            arith = [n for n in walk_body(rt) if isinstance(n, ast.BinOp) and isinstance(n.op, (ast.Sub, ast.Add)) and _mentions(source.inline_node(n, rdefs), cvn, _KEYS)]
+            wkey = f"{_R}:RequestTiming.__call__"
+            if not arith:
+                chk.unknown("O18.3", "wrapper: no computation over the context's request_start / request_end located (how is the sub-request's service time computed?)", st[0] if st else rt)
+            for n in arith:
+                try:
+                    table, facts = timing_presence_table(n, cvn, rdefs)
+                except CannotEval as x:
+                    chk.unknown("O18.3", f"wrapper: a guard of `{short(n, 50)}` that speaks about the context's start / end cannot be evaluated ({x})", n)
+                    continue
+                crash = sorted((k for k, reached in table.items() if reached and None in k), key=lambda k: (sum(v is not None for v in k), str(k)))  # the all-missing row first
+                lost = sorted((k for k, reached in table.items() if not reached and None not in k), key=str)
+                chk.ob("O18.3", "wrapper: no arithmetic on a missing start / end (a sub-request that sent no wire request)", not crash, n,
+                       f"`{short(n, 50)}` under {facts or 'no guard on start / end'}" + ("" if not crash else f": evaluated for (start, end) = {crash[0]} -> TypeError, the task fails although "
+                                                                                       "the composite's other sub-requests were timed"), key=f"{wkey}:timing-none-guard")
+                chk.ob("O18.3", "wrapper: a sub-request that did send a request keeps its timing whatever the values (0.0 is a time)", not lost, n,
+                       f"`{short(n, 50)}` under {facts or 'no guard on start / end'}" + ("" if not lost else f": skipped for (start, end) = {lost[0]}"), key=f"{wkey}:timing-kept-when-present")
+        CO = run_.cls("Composite")
+        rs = run_.methods(CO).get("run_stream")
+        if rs is None:
+            raise AnchorMissing("Composite.run_stream")
+        rf = [n for n in walk_body(rs) if isinstance(n, ast.Call) and last_attr(n.func) == "runner_for"]
+        if not rf:
+            chk.unknown("O18.3", "composite: the dispatch of a sub-request to its runner (runner_for) was not located in run_stream", rs)
+        else:
+            sdefs = local_defs(rs)
+
+            def wrapped(n):
+                """the dispatched runner flows into the timing wrapper: directly, or through a single-assignment local every use of which is an argument of the wrapper"""
+                p_ = source.parent(n)
+                if isinstance(p_, ast.Call) and last_attr(p_.func) == RT.name and n in p_.args:
+                    return True
+                if isinstance(p_, ast.Assign) and len(p_.targets) == 1 and isinstance(p_.targets[0], ast.Name) and sdefs.get(p_.targets[0].id) is n:
+                    uses = [x for x in walk_body(rs) if isinstance(x, ast.Name) and x.id == p_.targets[0].id and isinstance(x.ctx, ast.Load)]
+                    return bool(uses) and all(isinstance(source.parent(x), ast.Call) and last_attr(source.parent(x).func) == RT.name and x in source.parent(x).args for x in uses)
+                return False
+
+            chk.ob("O18.3", "composite: every dispatched sub-request runner is wrapped in the timing wrapper", all(wrapped(n) for n in rf), rf[0], f"{len(rf)} dispatch site(s)")
+        cc = run_.methods(CO).get("__call__")
+        if cc is None:
+            chk.unknown("O18.3", "Composite.__call__ not located", CO)
+        else:
+            cmeth = run_.methods(CO)
+
+            def reaches_streams(fn, depth=0):  # __call__ itself or a method of the composite it calls as self.m(...)
+                return any(isinstance(n, ast.Call) and (last_attr(n.func) == rs.name or (
+                    depth < 3 and isinstance(n.func, ast.Attribute) and isinstance(n.func.value, ast.Name) and n.func.value.id == "self" and n.func.attr in cmeth
+                    and cmeth[n.func.attr] is not fn and reaches_streams(cmeth[n.func.attr], depth + 1))) for n in walk_body(fn))
+
+            ok = reaches_streams(cc)
+            chk.ob("O18.3", "composite runs its streams from __call__", ok, cc, "")
+        # O18.4 advisory: concurrent streams as tasks created in the composite's context
+        ct = [n for n in walk_body(rs) if isinstance(n, ast.Call) and dotted(n.func) == "asyncio.create_task"]
+        if not ct:
+            chk.adv("O18.4", "composite streams are no longer started with asyncio.create_task inside run_stream (context chaining to the request's dict not established this way)", rs)
+
+    for rid, section in (("O18.1", o18_1), ("O18.5", o18_5), ("O18.2", o18_2), ("O18.3", o18_3)):
+        try:
+            section()
+        except AnchorMissing as e:
+            chk.unknown(rid, f"anchor missing: {e}")
 
 
 from sa.selftest import V  # noqa: E402
@@ -662,4 +1483,153 @@ VARIANTS = [
     V("min via guarded assignment", "keep", _C, _MIN, "            if current is None or new_request_start < current:\n                meta[\"request_start\"] = new_request_start"),
     V("max via conditional expression", "keep", _C, _MAX, "            meta[\"request_end\"] = new_request_end if current is None else (new_request_end if new_request_end > current else current)"),
     V("is not MISSING", "keep", _C, "        if self.token.old_value != contextvars.Token.MISSING:", "        if self.token.old_value is not contextvars.Token.MISSING:"),
+]
+
+# ---- hardening round 2: realistic refactorings (keep) and the same defects placed INSIDE the refactored shapes (break) ----------------------------------------------------
+_UPD = ("    @classmethod\n    def update_request_start(cls, new_request_start):\n        meta = cls.request_context.get()\n"
+        "        # multiple requests may be sent on the wire for one logical request (e.g. scrolls) and sub-requests may run\n"
+        "        # concurrently and finish in any order: always keep the earliest start.\n"
+        "        if new_request_start is not None:\n            current = meta.get(\"request_start\")\n" + _MIN + "\n\n"
+        "    @classmethod\n    def update_request_end(cls, new_request_end):\n        meta = cls.request_context.get()\n"
+        "        # always keep the most recent end (see above).\n"
+        "        if new_request_end is not None:\n            current = meta.get(\"request_end\")\n" + _MAX + "\n")
+_H_BODY = ("        meta = cls.request_context.get()\n        if new_value is None:\n            return\n        current = meta.get(key)\n"
+           "        meta[key] = new_value if current is None else outermost(current, new_value)\n")
+
+
+def _helper_shape(body=_H_BODY, start_args="\"request_start\", new_request_start, min", end_args="\"request_end\", new_request_end, max", sig="cls, key, new_value, outermost",
+                  deco="@classmethod"):
+    """benign C18-b1: the two merges folded into one helper that the public methods delegate to"""
+    return (f"    {deco}\n    def _keep_outermost({sig}):\n{body}\n    @classmethod\n    def update_request_start(cls, new_request_start):\n        cls._keep_outermost({start_args})\n\n"
+            f"    @classmethod\n    def update_request_end(cls, new_request_end):\n        cls._keep_outermost({end_args})\n")
+
+
+_MODFN = ("def _keep_outermost(values, key, new_value, outermost):\n    if new_value is None:\n        return\n    current = values.get(key)\n"
+          "    values[key] = new_value if current is None else {merged}\n\n\n")
+_MODFN_CALLS = ("    @classmethod\n    def update_request_start(cls, new_request_start):\n        _keep_outermost(cls.request_context.get(), \"request_start\", new_request_start, min)\n\n"
+                "    @classmethod\n    def update_request_end(cls, new_request_end):\n        _keep_outermost(cls.request_context.get(), \"request_end\", new_request_end, max)\n")
+_TABLE_BODY = ("        meta = cls.request_context.get()\n        if new_value is not None:\n            current = meta.get(key)\n            if current is None:\n                meta[key] = new_value\n"
+               "            else:\n                meta[key] = {\"request_start\": min, \"request_end\": max}[key](current, new_value)\n")
+_STATIC_BODY = "        if new_value is None:\n            return\n        current = values.get(key)\n        values[key] = new_value if current is None else pick(current, new_value)\n"
+_EXIT = ("    def __exit__(self, exc_type, exc_val, exc_tb):\n        self.ctx_holder.restore_context(self.token)\n"
+         "        # don't attempt to restore these values on the top-level context as they don't exist\n        if self.token.old_value != contextvars.Token.MISSING:\n"
+         "            # propagate earliest request start and most recent request end to parent\n            self.ctx_holder.update_request_start(self.request_start)\n"
+         "            self.ctx_holder.update_request_end(self.request_end)\n        self.token = None\n        return False\n")
+_PROP_HELPER = ("    def _propagate_to_parent(self):\n        if self.token.old_value != contextvars.Token.MISSING:\n            self.ctx_holder.update_request_start(self.request_start)\n"
+                "            self.ctx_holder.update_request_end(self.request_end)\n\n    def __exit__(self, exc_type, exc_val, exc_tb):\n")
+_B3 = [("self.ctx_holder", "self.holder", 5), ("self.ctx", "self.values", 4), ("self.token", "self.parent_token", 5), ("meta", "values", 6)]
+
+
+def _b3_shape(kind, name, rule=None, extra=()):
+    """benign C18-b3: consistent renames of the manager's attributes and of the holder's locals (+ further edits on the renamed text)"""
+    vs = [V(name if i == 0 else "", kind, _C, o, n, rule if i == 0 else None, count=c) for i, (o, n, c) in enumerate(_B3)]
+    return vs + [V("", kind, f_, o, n) for f_, o, n in extra]
+
+
+_LOOP = "            async for expected_scheduled_time, sample_type, percent_completed, runner, params in schedule:\n"
+_WITH = "                with self.es[\"default\"].new_request_context() as request_context:\n"
+_ADD = "                self.sampler.add(\n                    self.task,\n                    self.client_id,\n"
+
+
+def _b4_shape(kind, name, rule=None, extra=()):
+    """benign C18-b4: loop invariants (the context factory, the sampler's add) bound to locals before the request loop"""
+    return [V(name, kind, _D, _LOOP, "            open_context = self.es[\"default\"].new_request_context\n            record = self.sampler.add\n" + _LOOP, rule),
+            V("", kind, _D, _WITH, "                with open_context() as rc:\n"),
+            V("", kind, _D, "request_start = request_context.request_start\n                    request_end = request_context.request_end", "request_start, request_end = rc.request_start, rc.request_end"),
+            V("", kind, _D, _ADD, "                record(\n                    self.task,\n                    self.client_id,\n")] + [V("", kind, f_, o, n) for f_, o, n in extra]
+
+
+_CB = ("        async def on_request_start(session, trace_config_ctx, params):\n            RallyAsyncElasticsearch.on_request_start()\n\n"
+       "        async def on_request_end(session, trace_config_ctx, params):\n            RallyAsyncElasticsearch.on_request_end()\n\n")
+_CREATE = "    def create_async(self, api_key=None, client_id=None):"
+_REG_HELPER = ("    @staticmethod\n    def _register(config, start, stop):\n        config.on_request_start.append(start)\n        config.{chunk}.append(stop)\n"
+               "        config.on_request_end.append(stop)\n        config.on_request_exception.append(stop)\n\n" + _CREATE)
+
+
+def _reg_helper_shape(kind, name, rule=None, chunk="on_response_chunk_received"):
+    return [V(name, kind, _F, "        trace_config.on_request_start.append(on_request_start)\n", "        self._register(trace_config, on_request_start, on_request_end)\n", rule),
+            V("", kind, _F, "        trace_config.on_response_chunk_received.append(on_request_end)\n", ""), V("", kind, _F, "        trace_config.on_request_end.append(on_request_end)\n", ""),
+            V("", kind, _F, "        trace_config.on_request_exception.append(on_request_end)\n", ""), V("", kind, _F, _CREATE, _REG_HELPER.replace("{chunk}", chunk))]
+
+
+_PR = "    async def perform_request(self, *args, **kwargs):\n"
+_RW = "        with es[\"default\"].new_request_context() as request_context:\n            return_value = await self.delegate(es, params)\n"
+VARIANTS += [
+    # the merge folded into a helper (benign C18-b1) - and the defects inside / at the call sites of the helper
+    V("b1 shape: merges delegate to one helper (key, value, operator handed on as a value)", "keep", _C, _UPD, _helper_shape()),
+    V("b1 shape: last-wins inside the extracted helper", "break", _C, _UPD, _helper_shape(_H_BODY.replace("new_value if current is None else outermost(current, new_value)", "new_value")), "O18.1"),
+    V("b1 shape: the start delegates with max", "break", _C, _UPD, _helper_shape(start_args="\"request_start\", new_request_start, max"), "O18.1"),
+    V("b1 shape: helper without the None guard", "break", _C, _UPD, _helper_shape(_H_BODY.replace("        if new_value is None:\n            return\n", "")), "O18.1"),
+    V("b1 shape: the end is merged under the start's key", "break", _C, _UPD, _helper_shape(end_args="\"request_start\", new_request_end, max"), "O18.1"),
+    V("operator looked up in a table by key", "keep", _C, _UPD, _helper_shape(_TABLE_BODY, "\"request_start\", new_request_start", "\"request_end\", new_request_end", "cls, key, new_value")),
+    V("operator table with min / max swapped", "break", _C, _UPD, _helper_shape(_TABLE_BODY.replace("\"request_start\": min, \"request_end\": max", "\"request_start\": max, \"request_end\": min"),
+                                                                             "\"request_start\", new_request_start", "\"request_end\", new_request_end", "cls, key, new_value"), "O18.1"),
+    V("static helper that is handed the current context's dict", "keep", _C, _UPD, _helper_shape(_STATIC_BODY, "cls.request_context.get(), \"request_start\", new_request_start, min",
+                                                                                                 "cls.request_context.get(), \"request_end\", new_request_end, max", "values, key, new_value, pick", "@staticmethod")),
+    [V("static helper handed a module-level dict instead of the current context's", "break", _C, _UPD, _helper_shape(_STATIC_BODY, "_requests_by_client, \"request_start\", new_request_start, min",
+                                                                                                                      "_requests_by_client, \"request_end\", new_request_end, max", "values, key, new_value, pick", "@staticmethod"), "O18.2"),
+     V("", "break", _C, "class RequestContextManager:", "_requests_by_client = {}\n\n\nclass RequestContextManager:")],
+    [V("merge in a module-level function that is handed the current context's dict", "keep", _C, _UPD, _MODFN_CALLS),
+     V("", "keep", _C, "class RequestContextManager:", _MODFN.format(merged="outermost(current, new_value)") + "class RequestContextManager:")],
+    [V("module-level merge function keeps the first value", "break", _C, _UPD, _MODFN_CALLS, "O18.1"),
+     V("", "break", _C, "class RequestContextManager:", _MODFN.format(merged="current") + "class RequestContextManager:")],
+    V("first-wins through dict.setdefault", "break", _C, "            current = meta.get(\"request_start\")\n" + _MIN, "            meta.setdefault(\"request_start\", new_request_start)", "O18.1"),
+    V("min over the present candidates", "keep", _C, "        if new_request_start is not None:\n            current = meta.get(\"request_start\")\n" + _MIN,
+      "        candidates = [t for t in (meta.get(\"request_start\"), new_request_start) if t is not None]\n        if candidates:\n            meta[\"request_start\"] = min(candidates)"),
+    # consistent renames (benign C18-b3)
+    _b3_shape("keep", "b3 shape: manager attributes and holder locals renamed consistently"),
+    _b3_shape("break", "b3 shape: propagation only when the block succeeded", "O18.2",
+              [(_C, "        if self.parent_token.old_value != contextvars.Token.MISSING:", "        if exc_type is None and self.parent_token.old_value != contextvars.Token.MISSING:")]),
+    _b3_shape("break", "b3 shape: the dict / token pair unpacked the wrong way round", "O18.2",
+              [(_C, "        self.values, self.parent_token = self.holder.init_request_context()", "        self.parent_token, self.values = self.holder.init_request_context()")]),
+    # __exit__ restructured
+    V("propagation extracted into a helper of the manager", "keep", _C, _EXIT, _PROP_HELPER + "        self.ctx_holder.restore_context(self.token)\n        self._propagate_to_parent()\n        self.token = None\n        return False\n"),
+    V("propagation helper called before the restore", "break", _C, _EXIT, _PROP_HELPER + "        self._propagate_to_parent()\n        self.ctx_holder.restore_context(self.token)\n        self.token = None\n        return False\n", "O18.2"),
+    V("propagation helper called only when the block succeeded", "break", _C, _EXIT,
+      _PROP_HELPER + "        self.ctx_holder.restore_context(self.token)\n        if exc_type is None:\n            self._propagate_to_parent()\n        self.token = None\n        return False\n", "O18.2"),
+    V("__exit__ with a flag, a guard clause and a parallel assignment", "keep", _C, _EXIT,
+      "    def __exit__(self, exc_type, exc_val, exc_tb):\n        token = self.token\n        self.ctx_holder.restore_context(token)\n        self.token = None\n"
+      "        nested = token.old_value is not contextvars.Token.MISSING\n        if not nested:\n            return False\n        start, end = self.request_start, self.request_end\n"
+      "        self.ctx_holder.update_request_start(start)\n        self.ctx_holder.update_request_end(end)\n        return None\n"),
+    V("restore method inlined into __exit__", "keep", _C, "        self.ctx_holder.restore_context(self.token)\n        # don't attempt", "        self.ctx_holder.request_context.reset(self.token)\n        # don't attempt"),
+    V("propagation skipped for a missing own value (the merge ignores None anyway)", "keep", _C, "            self.ctx_holder.update_request_start(self.request_start)\n",
+      "            if self.request_start is not None:\n                self.ctx_holder.update_request_start(self.request_start)\n"),
+    V("start propagated from the end", "break", _C, "update_request_start(self.request_start)", "update_request_start(self.request_end)", "O18.1"),
+    V("property subscripts the dict (KeyError for a context without a wire request)", "break", _C, "        return self.ctx.get(\"request_start\")", "        return self.ctx[\"request_start\"]", "O18.1"),
+    V("wire callback stamps the wall clock", "break", _C, "cls.update_request_start(time.perf_counter())", "cls.update_request_start(time.time())", "O18.1"),
+    V("wire callback through a temporary", "keep", _C, "cls.update_request_end(time.perf_counter())", "now = time.perf_counter()\n        cls.update_request_end(now)"),
+    V("init returns a copy of the installed dict", "break", _C, "        return ctx, token", "        return dict(ctx), token", "O18.2"),
+    V("module-level list that is only read", "keep", _C, "class RequestContextManager:", "_timing_keys = [\"request_start\", \"request_end\"]\n\n\nclass RequestContextManager:"),
+    [V("module-level dict that a holder method writes to", "break", _C, "class RequestContextManager:", "_last = {}\n\n\nclass RequestContextManager:", "O18.2"),
+     V("", "break", _C, "        ctx[\"raw_response\"] = True", "        ctx[\"raw_response\"] = True\n        _last[\"raw\"] = ctx")],
+    [V("module-level CONSTANT dict installed as every context's value (N9 copies its literal into the function)", "break", _C, "class RequestContextManager:", "_SHARED = {}\n\n\nclass RequestContextManager:", "O18.2"),
+     V("", "break", _C, "        ctx = {}\n", "        ctx = _SHARED\n")],
+    [V("fresh dict built by a helper of the holder", "keep", _C, "        ctx = {}\n", "        ctx = cls._empty_context()\n"),
+     V("", "keep", _C, "    @classmethod\n    def init_request_context(cls):", "    @staticmethod\n    def _empty_context():\n        return {}\n\n    @classmethod\n    def init_request_context(cls):")],
+    V("nested context starts from a copy of the enclosing one", "break", _C, "        ctx = {}\n", "        ctx = dict(cls.request_context.get({}))\n", "O18.2"),
+    # executor (benign C18-b4) and wrapper
+    _b4_shape("keep", "b4 shape: context factory and sampler.add hoisted into locals, start/end unpacked in parallel"),
+    _b4_shape("break", "b4 shape: the hoisted sampler call records the processing start", "O18.3",
+              [(_D, "                    absolute_processing_start,\n                    request_start,\n", "                    absolute_processing_start,\n                    processing_start,\n")]),
+    V("wrapper: context manager built one line earlier, delegate through an alias", "keep", _R, _RW,
+      "        wrapped = self.delegate\n        timing_context = es[\"default\"].new_request_context()\n        with timing_context as request_context:\n            return_value = await wrapped(es, params)\n"),
+    V("wrapper: delegate awaited before the context is entered", "break", _R, _RW, "        return_value = await self.delegate(es, params)\n        with es[\"default\"].new_request_context() as request_context:\n", "O18.3"),
+    V("composite: dispatched runner reaches the wrapper through a local", "keep", _R, "                    runner = RequestTiming(runner_for(op_type))",
+      "                    plain_runner = runner_for(op_type)\n                    runner = RequestTiming(plain_runner)"),
+    V("composite: the local is also used unwrapped", "break", _R, "                    runner = RequestTiming(runner_for(op_type))",
+      "                    plain_runner = runner_for(op_type)\n                    runner = RequestTiming(plain_runner) if item.get(\"timed\", True) else plain_runner", "O18.3"),
+    # trace hooks and node-level handler
+    _reg_helper_shape("keep", "trace hooks registered by a helper that is handed the configuration and the callbacks"),
+    _reg_helper_shape("break", "registration helper hangs the stop callback on the request-side chunk signal", "O18.1", chunk="on_request_chunk_sent"),
+    [V("trace callbacks as static methods of the factory", "keep", _F, _CB, ""),
+     V("", "keep", _F, _CREATE, "    @staticmethod\n    async def _start_clock(session, trace_config_ctx, params):\n        from esrally.client.asynchronous import RallyAsyncElasticsearch\n\n"
+       "        RallyAsyncElasticsearch.on_request_start()\n\n    @staticmethod\n    async def _stop_clock(session, trace_config_ctx, params):\n"
+       "        from esrally.client.asynchronous import RallyAsyncElasticsearch\n\n        RallyAsyncElasticsearch.on_request_end()\n\n" + _CREATE),
+     V("", "keep", _F, ".append(on_request_start)", ".append(self._start_clock)"), V("", "keep", _F, ".append(on_request_end)", ".append(self._stop_clock)", count=3)],
+    [V("F39: end recorded by a helper of the node class", "keep", _A, "            try:\n                RequestContextHolder.on_request_end()\n            except LookupError:\n                pass\n            raise\n",
+       "            self._request_ended()\n            raise\n"),
+     V("", "keep", _A, _PR, "    def _request_ended(self):\n        try:\n            RequestContextHolder.on_request_end()\n        except LookupError:\n            pass\n\n" + _PR)],
+    [V("F39: the node helper records the end only if none is known yet", "break", _A, "            try:\n                RequestContextHolder.on_request_end()\n            except LookupError:\n                pass\n            raise\n",
+       "            self._request_ended()\n            raise\n", "O18.5"),
+     V("", "break", _A, _PR, "    def _request_ended(self):\n        if RequestContextHolder.request_context.get().get(\"request_end\") is None:\n            RequestContextHolder.on_request_end()\n\n" + _PR)],
 ]
